@@ -1,24 +1,27 @@
 """C02 — Generated result types admit nothing no execution could return (the anchored mechanisms).
 
-Two kinds of instances:
+Everything is decided from the typed HIR, nothing is executed.  Three kinds of instances:
 
-* *structural* ones (provenance / tables read off the typed HIR).  They look through helper functions (`_inl`: virtual inlining of
-  every same-crate callee that is not itself an anchor of this property) and are three-valued: VIOLATED only on positive evidence
-  (an atom that is *absent* from an over-approximated provenance set, a constant of the wrong value), UNDECIDED when the shape that
-  would carry the evidence is not found.
-* *scenario* ones (`run:` in the message).  The anchored entry points — `get_type_for_selection_set`, `generate_selection_tree_type`,
-  `deep_merge_selection_tree`, all `pub` — are executed by a small interpreter of the typed HIR (`_Interp`, bottom of this file) on
-  partially determined inputs: a fixed small schema, a GraphQL selection written as text, everything else (positions, options)
-  undetermined.  The result is compared with what the GraphQL spec prescribes for that input (`_Oracle`: CollectFields with type
-  conditions, @skip/@include, same-key merging; nullability by wrapper).  A differing result is a concrete witness, hence positive
-  evidence, and it does not depend on how the code is spelled (loop / iterator chain, match / if-let / let-else, helpers, tuple /
-  struct, Vec+find / HashMap).  Whatever the interpreter has no exact model for makes the instance UNDECIDED, never an alarm.
+* *provenance* instances (T2): an argument / field is computed from an atom or not.  They look through helper functions (`_inl`:
+  virtual inlining of every same-crate callee that is not itself an anchor of this property) and use `Prov.deep_atoms` for positive
+  requirements.  VIOLATED only when an atom is *absent* from an over-approximated provenance set or a constant has the wrong value.
+* *table* instances (T3, message prefix `table:`): a finite decision table is read out of the code by abstract evaluation (`_Abs`,
+  bottom of this file) and compared with the table the GraphQL spec prescribes: the 7-cell merge table of same-key fields over the
+  variant tags Empty / Leaf / Object, the nullability table over wrapper terms List / NonNull / Named, the @skip/@include table over
+  (directive name literal, kind of the `if` value, boolean).  Inputs are variant tags with undetermined payloads; the evaluation
+  forks on every undetermined condition and the table is read off the set of paths, so it does not depend on how the code is
+  spelled (loop / iterator chain, match / if-let / let-else, helpers, tuple / struct).
+* *path* instances (message prefix `paths:`): a property of every abstract path of a function ("a fragment's fields are collected only
+  after its type condition was found to apply", "no path returns an empty variable list after having met a selection without
+  handing it to the visitor").
+
+Three-valued throughout: a shape or an anchor that is not found, or an evaluation `_Abs` has no model for, is UNDECIDED, never an alarm.
 """
 import itertools
 import re
 
 import harness
-from facts import (norm, call_name, short, subnodes, lit_value, matches_on, AnchorMissing)
+from facts import (norm, call_name, short, subnodes, lit_value, matches_on, peel_ty, AnchorMissing)
 from prov import Prov, has_field, has_call
 from templates import (variant_table, enclosing_contexts, recursion_discipline, inlined, method_chain)
 
@@ -29,6 +32,7 @@ TS = "graphql_type_system::"
 TSD = TS + "definitions::"
 ST = OT + "selection_tree::"
 BC = OT + "branching::BranchingCondition"
+STB = ST + "SelectionTreeBranch"
 
 # functions this property (and C01) anchors: a callee that is *not* in this list is a helper and is looked through
 ANCHORS = [OT + "type_printer::" + n for n in (
@@ -80,138 +84,355 @@ def _tri(R, rule, key, verdict, ok="", bad="", und="", loc=None):
         R.undecided(rule, key, und or ("not decided on this shape of the code: " + ok), loc)
 
 
+def _role(P, name, ins, out):
+    """the function anchored as `name`; if it was renamed, the unique non-test function of the printer crate with that signature role
+    (one parameter type mentioning each of `ins`, return type mentioning `out`)"""
+    try:
+        f = P.fn(name, required=False)
+    except AnchorMissing:
+        f = None
+    if f is not None:
+        return f
+    cands = []
+    for g in P.fns.values():
+        if g.derived or g.kind not in ("Fn", "AssocFn") or not g.path.startswith(PR) or "::tests::" in g.path or len(g.sig_inputs) != len(ins):
+            continue
+        left = list(g.sig_inputs)
+        ok = True
+        for want in ins:
+            hit = [t for t in left if want in t]
+            if not hit:
+                ok = False
+                break
+            left.remove(hit[0])
+        if ok and out in (g.sig_output or ""):
+            cands.append(g)
+    if len(cands) == 1:
+        return cands[0]
+    raise AnchorMissing("function `%s` not found (and %d functions have its signature)" % (name, len(cands)))
+
+
+def _explore(P, R, rule, key, what, f, thunk, stops=()):
+    """all abstract paths of `thunk`, or None after reporting the instance(s) `key` UNDECIDED"""
+    try:
+        return _Abs(P, stops).explore(thunk)
+    except (_Unknown, AnchorMissing) as e:
+        for k in ([key] if isinstance(key, str) else key):
+            R.undecided(rule, k, "the abstract evaluation of %s does not decide %s (%s)" % (f.path, what, e), loc=f.loc())
+    except (KeyError, IndexError, TypeError, AttributeError, RecursionError, ValueError) as e:
+        for k in ([key] if isinstance(key, str) else key):
+            R.undecided(rule, k, "the abstract evaluation of %s does not decide %s (evaluator: %r)" % (f.path, what, e), loc=f.loc())
+    return None
+
+
+def _params(f, table, ab=None):
+    """argument values for `f`: per parameter the first entry of `table` [(type substring, value or maker)] whose key occurs in the
+    parameter's type; an undetermined value (with the parameter as its provenance) otherwise"""
+    out = []
+    for i, t in enumerate(f.sig_inputs):
+        name = f.params[i].get("name") if f.params[i].get("k") == "Binding" else None
+        hit = [v for key, v in table if key in t]
+        if hit:
+            out.append(hit[0]() if callable(hit[0]) else hit[0])
+        else:
+            out.append(_Opq(name or "arg%d" % i, [("param", name or i)]))
+    return out
+
+
 # =================================================================================================================== R02-a
 def r02a(P, R):
-    _sections(P, R, "R02-a", _a_leaf_nullability, _a_tree_nullability, _a_field_kinds, _a_wrappers)
+    _sections(P, R, "R02-a", _a_leaf_nullability, _a_tree_nullability, _a_field_kinds, _a_wrappers, _a_field_types)
 
 
-LEAF_TYPES = ("String", "String!", "[String]", "[String!]", "[String]!", "[String!]!", "[[String]!]", "[[String!]]!")
+LEAF_TYPES = ("T", "T!", "[T]", "[T!]", "[T]!", "[T!]!", "[[T]!]", "[[T!]]!", "[[T]]", "[[[T]!]]!")
+
+
+def _to_ts(P):
+    return P.fn(OT + "selection_tree::to_ts::generate_selection_tree_type")
 
 
 def _a_leaf_nullability(P, R):
-    """leaf field of GraphQL type T -> TypeScript type: `| null` exactly where T has no Non-Null wrapper, at every list depth"""
-    S = _scn(P)
-    f = S.to_ts
-    fields = {"f%d" % i: ("leaf", _ty(t), False) for i, t in enumerate(LEAF_TYPES)}
-    tree = ("NonNull", ("Object", frozenset({("User", frozenset(fields.items()), frozenset())})))
-    st, got = S.run_ts(tree)
-    for i, t in enumerate(LEAF_TYPES):
-        key = "nulltable:" + t
-        want = _o_ts_leaf(_ty(t))
-        if st != "ok":
-            _scenario_failed(R, "R02-a", key, st, got, "the TypeScript type of a leaf of type %s" % t, f)
+    """leaf field of GraphQL type T -> TypeScript type: `| null` exactly where T has no Non-Null wrapper, at every list depth.  The table
+    is read by evaluating the to-TypeScript entry on a one-leaf tree whose leaf type is the wrapper term; names are undetermined."""
+    f = _to_ts(P)
+    for t in LEAF_TYPES:
+        key = "nulltable:" + t.replace("T", "String")
+        term = _ty(t)
+
+        def thunk(ab, term=term):
+            leaf = _t_field(P, "leaf", _Opq("key"), ty=term)
+            tree = _t_tree(P, ("NonNull", ("Object", [_t_branch(P, _Opq("type_name"), [leaf], [])])))
+            return ab.call(f.path, _params(f, [("SelectionTree<", tree)]))
+        paths = _explore(P, R, "R02-a", key, "the TypeScript type of a leaf of type %s" % t, f, thunk)
+        if paths is None:
             continue
-        have = _ts_field(_any_target(got), "f%d" % i)
-        want = _any_target(want)
-        _tri(R, "R02-a", key, None if have is None else have == (want, False),
-             "run: a leaf of type %s is typed %s" % (t, _show_ts(want)),
-             "run: %s types a leaf field of GraphQL type %s as %s, the spec table gives %s (a type is nullable unless wrapped in Non-Null, list "
-             "elements are decided afresh): %s" % (f.path, t, _show_ts(have[0]) if have else "?", _show_ts(want), _null_diff(have[0] if have else None, want)),
-             "run: the field f%d was not found in the produced object type" % i, loc=f.loc())
+        got = _first_field_types(paths)
+        want = _spec_leaf(term)
+        if got is None:
+            R.undecided("R02-a", key, "the type of the leaf was not found in what %s returns" % f.path, loc=f.loc())
+            continue
+        bad = [g for g in got if _any_target(g) != _any_target(want)]
+        R.check("R02-a", key, not bad, "table: a leaf of type %s is typed %s" % (t, _show_ts(want)),
+                "table: %s types a leaf field of GraphQL type %s as %s, the spec table gives %s (a type is nullable unless wrapped in Non-Null, list "
+                "elements are decided afresh): %s" % (f.path, t, _show_ts(bad[0]) if bad else "", _show_ts(want), _null_diff(bad[0], want) if bad else ""), loc=f.loc())
 
 
 def _a_tree_nullability(P, R):
-    S = _scn(P)
-    f = S.to_ts
-    br = frozenset({("User", frozenset({("id", ("leaf", _ty("String!"), False))}), frozenset())})
-    for t in ("User", "User!", "[User]", "[User!]", "[User]!", "[User!]!", "[[User]!]"):
-        tree = _wrap_tree(_ty(t), ("Object", br))
-        st, got = S.run_ts(tree)
-        key = "nulltable:selection:" + t
-        if st != "ok":
-            _scenario_failed(R, "R02-a", key, st, got, "the TypeScript type of an object selection of type %s" % t, f)
+    """object selections: NonNull removes `| null`, a list element is nullable again; M stands for the union of the branches"""
+    f = _to_ts(P)
+    ftt = P.fn(OT + "selection_tree::to_ts::field_to_type", required=False)
+    stops = [ftt.path] if ftt else []
+    for t in ("T", "T!", "[T]", "[T!]", "[T]!", "[T!]!", "[[T]!]", "[[T!]]"):
+        key = "nulltable:selection:" + t.replace("T", "Obj")
+        term = _ty(t)
+
+        def thunk(ab, term=term):
+            tree = _t_tree(P, _wrap_tree(term, ("Object", _Opq("branches", [("param", "branches")]))))
+            return ab.call(f.path, _params(f, [("SelectionTree<", tree)]))
+        paths = _explore(P, R, "R02-a", key, "the TypeScript type of an object selection of type %s" % t, f, thunk, stops)
+        if paths is None:
             continue
-        got, want = _any_target(got), _any_target(_o_ts_tree(tree))
-        _tri(R, "R02-a", key, got == want, "run: an object selection of type %s is typed %s" % (t, _show_ts(want)),
-             "run: %s types an object selection of GraphQL type %s as %s, the spec table gives %s: %s"
-             % (f.path, t, _show_ts(got), _show_ts(want), _null_diff(got, want)), loc=f.loc())
+        want = _spec_tree(term)
+        got = []
+        for st, v, _ in paths:
+            if st == "ok":
+                try:
+                    got.append(_blank_members(_c_ts(v)))
+                except _Shape as e:
+                    got = None
+                    R.undecided("R02-a", key, "undetermined result of %s: %s" % (f.path, e), loc=f.loc())
+                    break
+        if got is None:
+            continue
+        bad = [g for g in got if g != want]
+        _tri(R, "R02-a", key, None if not got else not bad, "table: an object selection of type %s is typed %s" % (t, _show_ts(want)),
+             "table: %s types an object selection of GraphQL type %s as %s, the spec table gives %s (M = the union of its branches): %s"
+             % (f.path, t, _show_ts(bad[0]) if bad else "", _show_ts(want), _null_diff(bad[0], want) if bad else ""),
+             "no path of %s returns normally on this input" % f.path, loc=f.loc())
 
 
 def _a_field_kinds(P, R):
     """the three kinds of tree fields and the two key spaces (unaliased / aliased) arrive in the TypeScript type where they belong"""
-    S = _scn(P)
-    f = S.to_ts
-    leaf = ("leaf", _ty("String"), False)
-    inner = ("List", ("Object", frozenset({("Bot", frozenset({("id", ("leaf", _ty("String!"), False)), ("gone", ("empty",))}), frozenset())})))
-    tree = ("NonNull", ("Object", frozenset({
-        ("User", frozenset({("kept", leaf), ("omitted", ("empty",)), ("nested", ("obj", inner))}), frozenset({("renamed", leaf), ("dropped", ("empty",))})),
-        ("Bot", frozenset({("kept", leaf)}), frozenset())})))
-    st, got = S.run_ts(tree)
-    if st != "ok":
-        _scenario_failed(R, "R02-a", "to-ts:field-kinds", st, got, "the TypeScript type of a selection with omitted, leaf and object fields", f)
+    f = _to_ts(P)
+    keys = {}
+
+    def thunk(ab):
+        k = keys.clear() or {n: _Opq(n) for n in ("omitted", "kept", "nested", "renamed", "dropped")}
+        keys.update(k)
+        inner = ("List", ("Object", []))
+        un = [_t_field(P, "empty", k["omitted"]), _t_field(P, "leaf", k["kept"], ty=_ty("T")), _t_field(P, "obj", k["nested"], tree=inner)]
+        al = [_t_field(P, "leaf", k["renamed"], ty=_ty("T")), _t_field(P, "empty", k["dropped"])]
+        return ab.call(f.path, _params(f, [("SelectionTree<", _t_tree(P, ("NonNull", ("Object", [_t_branch(P, _Opq("type_name"), un, al)]))))]))
+    paths = _explore(P, R, "R02-a", "to-ts:field-kinds", "the TypeScript type of a selection with omitted, leaf and object fields", f, thunk)
+    if paths is None:
         return
-    got, want = _any_target(got), _any_target(_o_ts_tree(tree))
-    _tri(R, "R02-a", "to-ts:field-kinds", got == want,
-         "run: an omitted field is `key?: never`, a leaf its scalar type, an object field the type of its selection; unaliased and aliased keys stay apart",
-         "run: %s types a selection with omitted / leaf / object fields as %s; expected %s (an omitted field is `key?: never`, selected fields "
-         "are required, unaliased keys go to the second and aliased keys to the third argument of __SelectionSet)" % (f.path, _show_ts(got), _show_ts(want)), loc=f.loc())
+    want_un = [(("never",), True), (_any_target(_spec_leaf(_ty("T"))), False), (_spec_tree(_ty("[T]")), False)]
+    want_al = [(_any_target(_spec_leaf(_ty("T"))), False), (("never",), True)]
+    seen = 0
+    for st, v, _ in paths:
+        if st != "ok":
+            continue
+        try:
+            ts = _c_ts(v)
+        except _Shape as e:
+            R.undecided("R02-a", "to-ts:field-kinds", "undetermined result of %s: %s" % (f.path, e), loc=f.loc())
+            return
+        if ts[0] != "selset":
+            R.undecided("R02-a", "to-ts:field-kinds", "the single branch is not typed by one __SelectionSet application", loc=f.loc())
+            return
+        seen += 1
+        un = [(_any_target(t) if t == ("never",) else _blank_members(_any_target(t)), o) for _, (t, o) in ts[2][1]]
+        al = [(_any_target(t) if t == ("never",) else _blank_members(_any_target(t)), o) for _, (t, o) in ts[3][1]]
+        if un != want_un or al != want_al:
+            R.violated("R02-a", "to-ts:field-kinds",
+                       "table: %s types the fields [omitted, leaf, object] / aliased [leaf, omitted] of a branch as %s / %s; expected `?: never` for an "
+                       "omitted field, required fields otherwise, unaliased keys in the second and aliased keys in the third argument of __SelectionSet"
+                       % (f.path, [(_show_ts(t), "optional" if o else "required") for t, o in un], [(_show_ts(t), "optional" if o else "required") for t, o in al]), loc=f.loc())
+            return
+    _tri(R, "R02-a", "to-ts:field-kinds", True if seen else None,
+         "table: an omitted field is `key?: never`, a leaf its scalar type, an object field the type of its selection; unaliased and aliased keys stay apart",
+         und="no path of %s returns normally on this input" % f.path, loc=f.loc())
 
 
 def _a_wrappers(P, R):
-    """Type -> SelectionTree keeps the wrappers 1:1; leaves and nested selections carry the schema type of their field"""
-    S = _scn(P)
-    for t in ("User", "User!", "[User]", "[User!]!", "[[User]!]"):
-        _scenario(R, "R02-a", "wrappers:" + t, S, t, "{ id }", "List / Non-Null wrappers of the parent type are carried into the selection tree one to one")
-    _scenario(R, "R02-a", "leaf-field-type", S, "User", "{ id name tags matrix }", "a leaf carries exactly the schema type of its field (wrappers included)")
-    _scenario(R, "R02-a", "nested-field-type", S, "User", "{ friends { id } best { id } owner: pet { __typename } }",
-              "a nested selection is typed with the schema type of its field (wrappers included)")
+    """Type -> SelectionTree keeps the wrappers 1:1 (read from the public entry; the branch enumeration itself is not entered)"""
+    f = P.fn(OT + "type_printer::get_type_for_selection_set")
+    stops = [g.path for g in (P.fn(OT + "type_printer::" + n, required=False) for n in ("generate_branching_conditions", "get_object_type_for_selection_set")) if g]
+    for t in ("T", "T!", "[T]", "[T!]!", "[[T]!]"):
+        term = _ty(t)
+
+        def thunk(ab, term=term):
+            return ab.call(f.path, _params(f, [("type::Type<", lambda: _t_type(P, term))]))
+        paths = _explore(P, R, "R02-a", "wrappers:" + t, "the selection tree of a parent of type %s" % t, f, thunk, stops)
+        if paths is None:
+            continue
+        want = []
+        x = term
+        while x[0] != "Named":
+            want.append(x[0])
+            x = x[1]
+        got = set()
+        for st, v, _ in paths:
+            if st == "ok":
+                w = []
+                v = _d(v)
+                while isinstance(v, _Var) and v.name in ("NonNull", "List") and len(v.args) == 1:
+                    w.append(v.name)
+                    v = _d(v.args[0])
+                got.add(tuple(w) if isinstance(v, _Var) and v.name == "Object" else None)
+        if None in got or not got:
+            R.undecided("R02-a", "wrappers:" + t, "what %s returns for a parent of type %s is not a determined wrapper chain around an object selection" % (f.path, t), loc=f.loc())
+            continue
+        R.check("R02-a", "wrappers:" + t, got == {tuple(want)}, "table: List / Non-Null wrappers of the parent type are carried into the selection tree one to one",
+                "table: for a parent of type %s the selection tree has the wrappers %s (expected %s): `| null` / `[]` end up at the wrong depth"
+                % (t, sorted(got), want), loc=f.loc())
+
+
+def _a_field_types(P, R):
+    """leaves and nested selections carry exactly the schema type of their field (read off the paths of get_fields_for_selection_set)"""
+    G = _gf_paths(P, R, "R02-a", ["leaf-field-type", "nested-field-type"])
+    if G is None:
+        return
+    gf, paths, names = G
+    leafs, nested, bad_leaf, bad_nested = 0, 0, None, None
+    FT = ("field", TSD + "Field", "type")
+    for st, v, evs in paths:
+        if st != "ok":
+            continue
+        for x in (_d(v) if isinstance(_d(v), list) else []):
+            x = _d(x)
+            fld = _d(x.args[0]) if isinstance(x, _Var) and x.name in ("Left", "Right") and x.args else None
+            if isinstance(fld, _Var) and fld.name == "Leaf" and isinstance(_d(fld.args[0]), _Obj):
+                o = _d(fld.args[0]).f
+                if _d(o.get("is_typename")) is False:
+                    leafs += 1
+                    ty = o.get("type")
+                    if not (isinstance(ty, _Opq) and ty.ref is None and FT in ty.origin):
+                        bad_leaf = ty
+        for ev in evs:
+            if ev[0] == "call" and ev[1] == names.get("gt"):
+                tys = [a for a, p in zip(ev[2], P.fns[ev[1]].sig_inputs) if "type::Type<" in p]
+                if len(tys) == 1:
+                    nested += 1
+                    if not (isinstance(tys[0], _Opq) and tys[0].ref is None and FT in tys[0].origin):
+                        bad_nested = tys[0]
+    _tri(R, "R02-a", "leaf-field-type", None if not leafs else bad_leaf is None, "paths: a leaf carries exactly the schema type of its field (wrappers included)",
+         "paths: %s builds a leaf whose type is %r, not the `type` of the field definition it was looked up from: wrappers (and with them `| null` / `[]`) "
+         "of the schema type are lost or invented" % (gf.path, bad_leaf), "no path of %s builds an ordinary leaf" % gf.path, loc=gf.loc())
+    _tri(R, "R02-a", "nested-field-type", None if not nested else bad_nested is None, "paths: a nested selection is typed with the schema type of its field (wrappers included)",
+         "paths: %s types a nested selection with %r, not the `type` of the field definition" % (gf.path, bad_nested),
+         "no path of %s types a nested selection through get_type_for_selection_set" % gf.path, loc=gf.loc())
+
+
+_GF = {}
+
+
+def _gf_paths(P, R, rule, keys):
+    """(fn, abstract paths, {role: path}) of get_fields_for_selection_set on undetermined arguments; the type-condition filter, the skip test,
+    the typing of nested selections and the recursion are not entered (they are events).  Memoised per program."""
+    if id(P) not in _GF:
+        gf = P.fn(OT + "type_printer::get_fields_for_selection_set")
+        cfc = _role(P, OT + "type_printer::check_fragment_condition", ["QueryTypePrinterContext", "ObjectDefinition", "str"], "bool")
+        csd = _role(P, OT + "type_printer::check_skip_directive", ["BranchingCondition", "Directive"], "bool")
+        gt = P.fn(OT + "type_printer::get_type_for_selection_set")
+        names = {"cfc": cfc.path, "csd": csd.path, "gt": gt.path, "gf": gf.path}
+        ext = P.fn("nitrogql_semantics::direct_fields_of_output_type::direct_fields_of_output_type", required=False)
+        stops = [gf.path, cfc.path, csd.path, gt.path] + ([ext.path] if ext else [])
+        try:
+            ab = _Abs(P, stops)
+            _GF[id(P)] = (gf, ab.explore(lambda ab: ab.call(gf.path, _params(gf, []), top=True)), names)
+        except _Unknown as e:
+            _GF[id(P)] = (gf, e, names)
+        except (KeyError, IndexError, TypeError, AttributeError, RecursionError, ValueError) as e:
+            _GF[id(P)] = (gf, _Unknown("evaluator: %r" % (e,)), names)
+    gf, paths, names = _GF[id(P)]
+    if isinstance(paths, Exception):
+        for k in keys:
+            R.undecided(rule, k, "the abstract evaluation of %s does not decide this (%s)" % (gf.path, paths), loc=gf.loc())
+        return None
+    return gf, paths, names
 
 
 # =================================================================================================================== R02-b
 def r02b(P, R):
-    _sections(P, R, "R02-b", _b_run, _b_literal_source, _b_branch_name, _b_flag)
+    _sections(P, R, "R02-b", _b_literal_table, _b_literal_source, _b_branch_name, _b_flag)
 
 
-def _b_run(P, R):
-    S = _scn(P)
-    _scenario(R, "R02-b", "typename-flag:run", S, "Node", "{ __typename t: __typename n: id }",
-              "the `__typename` meta field is recognised by its field name, with or without an alias, and nothing else is")
-    # to_ts: the literal is the branch's object type
-    br = frozenset({(o, frozenset({("__typename", ("leaf", None, True))}), frozenset({("t", ("leaf", None, True)), ("n", ("leaf", _ty("String"), False))}))
-                    for o in ("User", "Bot")})
-    tree = ("NonNull", ("Object", br))
-    st, got = S.run_ts(tree)
-    if st != "ok":
-        _scenario_failed(R, "R02-b", "typename-literal:run", st, got, "the type of `__typename` in each branch", S.to_ts)
-    else:
-        got, want = _any_target(got), _any_target(_o_ts_tree(tree))
-        _tri(R, "R02-b", "typename-literal:run", got == want, "run: `__typename` is the string literal of the branch's own object type",
-             "run: %s types the branches User | Bot of `{ __typename t: __typename n: id }` as %s, expected %s: the `__typename` literal must be the "
-             "branch's object type name and only flagged leaves get it" % (S.to_ts.path, _show_ts(got), _show_ts(want)), loc=S.to_ts.loc())
+def _b_literal_table(P, R):
+    """the `__typename` literal of a flagged leaf is the type name of the branch the leaf stands in — in the unaliased and in the aliased
+    object alike; an unflagged leaf never gets a literal (identity of undetermined payloads through the to-TypeScript entry)"""
+    f = _to_ts(P)
+    box = {}
+
+    def thunk(ab):
+        box["T"] = _Opq("branch.type_name", [("field", STB, "type_name")])
+        un = [_t_field(P, "leaf", _Opq("k1"), typename=True), _t_field(P, "leaf", _Opq("k2"), ty=_ty("T"))]
+        al = [_t_field(P, "leaf", _Opq("k3"), typename=True)]
+        return ab.call(f.path, _params(f, [("SelectionTree<", _t_tree(P, ("NonNull", ("Object", [_t_branch(P, box["T"], un, al)]))))]))
+    paths = _explore(P, R, "R02-b", "typename-literal:table", "the type of `__typename` in a branch", f, thunk)
+    if paths is None:
+        return
+    seen = 0
+    for st, v, _ in paths:
+        if st != "ok":
+            continue
+        try:
+            ts = _c_ts(v)
+        except _Shape as e:
+            R.undecided("R02-b", "typename-literal:table", "undetermined result of %s: %s" % (f.path, e), loc=f.loc())
+            return
+        if ts[0] != "selset" or len(ts[2][1]) != 2 or len(ts[3][1]) != 1:
+            R.undecided("R02-b", "typename-literal:table", "the branch is not typed by one __SelectionSet application over its own fields", loc=f.loc())
+            return
+        seen += 1
+        where = [("the unaliased `__typename`", ts[2][1][0][1][0], True), ("an ordinary leaf", ts[2][1][1][1][0], False), ("the aliased `__typename`", ts[3][1][0][1][0], True)]
+        for what, t, want_lit in where:
+            is_own = t[0] == "lit" and _d(t[1]) is box["T"]
+            if want_lit != (t[0] == "lit") or (want_lit and not is_own):
+                R.violated("R02-b", "typename-literal:table",
+                           "table: %s types %s of a branch as %s; a leaf flagged as the `__typename` meta field must be the string literal of the branch's own "
+                           "`type_name`, whether it stands among the unaliased or the aliased fields, and no other leaf may be"
+                           % (f.path, what, _show_ts(t) if not (t[0] == "lit" and isinstance(_d(t[1]), _Opq)) else "the literal of `%s`" % _d(t[1]).why), loc=f.loc())
+                return
+    _tri(R, "R02-b", "typename-literal:table", True if seen else None, "table: `__typename` is the string literal of the branch's own object type, under an alias too",
+         und="no path of %s returns normally on this input" % f.path, loc=f.loc())
 
 
 def _b_literal_source(P, R):
-    f = _inl(P, P.fn(OT + "selection_tree::to_ts::field_to_type"))
+    f0 = P.fn(OT + "selection_tree::to_ts::field_to_type")
+    f = _inl(P, f0)
     pv = Prov(f)
-    lits = [c for c in f.walk() if c.get("k") == "Call" and norm(c.get("callee", "")).endswith("TSType::StringLiteral")]
+    lits = [c for c in f.walk() if c.get("k") == "Call" and norm(c.get("callee", "")).endswith("TSType::StringLiteral") and len(c["args"]) == 1]
     R.floor("R02-b", "__typename literal site", len(lits), 1)
+    feed = set()        # parameters of field_to_type the literal is computed from
     for c in lits:
-        if "parent_type_name" not in pv.params.values() or len(c["args"]) != 1:
-            R.undecided("R02-b", "typename-literal-source", "field_to_type no longer has the parameter `parent_type_name` (the run instance "
-                        "typename-literal:run decides the behaviour)", loc=f.loc())
-            continue
         a = pv.deep_atoms(c["args"][0])
-        R.check("R02-b", "typename-literal-source", ("param", "parent_type_name") in a or has_field(a, ST + "SelectionTreeBranch", "type_name"),
-                "the __typename literal is the branch's object type name", "the __typename literal is not the branch's object type", loc=f.loc())
-    g = _inl(P, P.fn(OT + "selection_tree::to_ts::generate_selection_tree_type_impl"))
+        ps = {x[1] for x in a if x[0] == "param"}
+        feed |= ps
+        R.check("R02-b", "typename-literal-source", bool(ps) or has_field(a, STB, "type_name"),
+                "the __typename literal is computed from what the caller passes for the branch", "the __typename literal does not depend on any argument of "
+                "field_to_type: it cannot be the branch's object type", loc=f0.loc())
+    g0 = P.fn(OT + "selection_tree::to_ts::generate_selection_tree_type_impl")
+    g = _inl(P, g0)
     pvg = Prov(g)
-    target = P.fn(OT + "selection_tree::to_ts::field_to_type").path
-    calls = [c for c in g.walk() if c.get("k") == "Call" and call_name(c) == target]
-    R.floor("R02-b", "field_to_type calls", len(calls), 2)
-    BR = ST + "SelectionTreeBranch"
+    calls = [c for c in g.walk() if c.get("k") == "Call" and call_name(c) == f0.path]
+    R.floor("R02-b", "field_to_type calls", len(calls), 1)
+    names = list(pv.params.values())
     for i, c in enumerate(calls):
-        if len(c["args"]) != 3:
-            R.undecided("R02-b", "typename-branch:%d" % i, "field_to_type is called with %d arguments (3 on the reference tree)" % len(c["args"]), loc=g.loc())
+        if len(c["args"]) != len(f0.params) or not feed:
+            R.undecided("R02-b", "typename-branch:%d" % i, "which argument of field_to_type carries the branch's type name is not recognised", loc=g0.loc())
             continue
-        R.check("R02-b", "typename-branch:%d" % i, has_field(pvg.deep_atoms(c["args"][2]), BR, "type_name"), "parent name = branch.type_name",
-                "field_to_type is not given branch.type_name", loc=g.loc())
+        idx = [j for j, p in enumerate(f0.params) if p.get("k") == "Binding" and pv.params.get(p.get("local")) in feed]
+        ok = any(has_field(pvg.deep_atoms(c["args"][j]), STB, "type_name") for j in idx)
+        R.check("R02-b", "typename-branch:%d" % i, ok, "what feeds the __typename literal is branch.type_name",
+                "call #%d of field_to_type in %s does not pass the branch's `type_name` in the argument(s) the `__typename` literal is computed from (%s): "
+                "the meta field of that object is typed with another object's name" % (i, g0.path, sorted(feed)), loc=g0.loc())
 
 
 def _b_branch_name(P, R):
     go = _inl(P, P.fn(OT + "type_printer::get_object_type_for_selection_set"))
     pvo = Prov(go)
-    BR = ST + "SelectionTreeBranch"
-    brs = [n for n in go.walk() if n.get("k") == "Struct" and "rest" not in n and norm(n.get("adt", "")) == BR]
+    brs = [n for n in go.walk() if n.get("k") == "Struct" and "rest" not in n and norm(n.get("adt", "")) == STB]
     R.floor("R02-b", "branch constructions", len(brs), 1)
     for b in brs:
         e = [x for x in b["fields"] if x["name"] == "type_name"]
@@ -247,8 +468,7 @@ def _b_flag(P, R):
             guards = [c for c in enclosing_contexts(gf, i) if c[0] == "if-then" and any(lit_value(y) == "__typename" for y in subnodes(c[1]["cond"]))]
             if v is True:
                 if not guards:
-                    R.undecided("R02-b", "typename-flag:true", "a leaf is flagged `is_typename: true` outside an `if .. == \"__typename\"` (the run "
-                                "instance typename-flag:run decides the behaviour)", loc=gf.loc())
+                    R.undecided("R02-b", "typename-flag:true", "a leaf is flagged `is_typename: true` outside an `if .. == \"__typename\"`", loc=gf.loc())
                     continue
                 ok = all(has_field(pvf.atoms(g[1]["cond"]), A + "selection_set::Field", "name")
                          and not has_field(pvf.atoms(g[1]["cond"]), A + "selection_set::Field", "alias") for g in guards)
@@ -269,7 +489,7 @@ def _b_flag(P, R):
 
 # =================================================================================================================== R02-c
 def r02c(P, R):
-    _sections(P, R, "R02-c", _c_targets, _c_run)
+    _sections(P, R, "R02-c", _c_targets)
 
 
 def _c_targets(P, R):
@@ -289,23 +509,11 @@ def _namespace_targets(P, R, rule, fn, want_target, floor):
             targets = {x[1].split("::")[-1] for x in a if x[0] == "def" and "type_target::TypeTarget::" in x[1]}
             key = "namespace:%s#%d" % (short(fn.path), n)
             if not targets:
-                R.undecided(rule, key, "the namespace of a schema reference in %s is not a TypeTarget constant (the run instance decides it)" % fn.path, loc=fn.loc())
+                R.undecided(rule, key, "the namespace of a schema reference in %s is not a TypeTarget constant" % fn.path, loc=fn.loc())
                 continue
             R.check(rule, key, targets == {want_target}, "refers to the %s namespace" % want_target,
                     "%s builds a schema reference into namespace %s; this position must use %s" % (fn.path, sorted(targets), want_target), loc=fn.loc())
     R.floor(rule, "namespace references in " + short(fn.path), n, floor)
-
-
-def _c_run(P, R):
-    S = _scn(P)
-    tree = _o_tree_for(S, "Node", "{ id ... on User { best { id } } }")
-    st, got = S.run_ts(tree)
-    if st != "ok":
-        _scenario_failed(R, "R02-c", "namespace:run", st, got, "the namespaces referred to by a result type", S.to_ts)
-        return
-    targets = sorted(_ts_targets(got))
-    _tri(R, "R02-c", "namespace:run", targets == ["OperationOutput"], "run: every schema reference of a result type is in the OperationOutput namespace",
-         "run: %s refers to namespace(s) %s in a result type; results are typed by OperationOutput only" % (S.to_ts.path, targets), loc=S.to_ts.loc())
 
 
 # =================================================================================================================== R02-d
@@ -355,119 +563,236 @@ def _all_elements(P, R, rule, fn, adt, field, what):
 # =================================================================================================================== R02-e
 def r02e(P, R):
     """merging of same-key fields: a field skipped in one occurrence but selected in another is present"""
-    _sections(P, R, "R02-e", _e_table, _e_position, _e_branches, _e_pipeline, _e_recursion, _e_fast_equal)
+    _sections(P, R, "R02-e", _e_table, _e_merge_used, _e_alias_spaces, _e_branches, _e_recursion, _e_fast_equal)
 
 
 _MERGE_WANT = {("Empty", "Empty"): ("Empty", None), ("Leaf", "Leaf"): ("Leaf", None), ("Object", "Object"): ("Object", "both"),
                ("Leaf", "Empty"): ("Leaf", "left"), ("Empty", "Leaf"): ("Leaf", "right"),
                ("Object", "Empty"): ("Object", "left"), ("Empty", "Object"): ("Object", "right")}
+STF = ST + "SelectionTreeField"
 
 
 def _e_table(P, R):
-    """the merge table, read off by running the public entry on two occurrences of one response key"""
-    S = _scn(P)
-    f = S.merge
-
-    def mk(kind, side):
-        if kind == "Empty":
-            return _v_field("k", ("empty",))
-        if kind == "Leaf":
-            return _v_field("k", ("leaf", _ty("T" + side), False))
-        return _v_field("k", ("obj", ("NonNull", ("Object", frozenset({("A", frozenset({(side.lower(), ("leaf", _ty("String"), False))}), frozenset())})))))
+    """the 7-cell merge table, read by evaluating the merge function over the variant tags with undetermined payloads (the payload of
+    the left / right occurrence keeps its identity, so the table also says which side survives)"""
+    f = _role(P, OT + "deep_merge::merge_fields", ["SelectionTreeField<", "SelectionTreeField<"], "SelectionTreeField<")
+    mst = P.fn(OT + "deep_merge::merge_selection_trees", required=False)
     for (l, r), (wk, wside) in sorted(_MERGE_WANT.items()):
         key = "merge:(%s, %s)" % (l, r)
-        st, got = S.run_merge([mk(l, "L"), mk(r, "R")])
-        if st != "ok":
-            _scenario_failed(R, "R02-e", key, st, got, "merging a %s occurrence with a %s occurrence of one response key" % (l, r), f)
+        box = {}
+
+        def thunk(ab, l=l, r=r):
+            box["L"], box["R"] = _Opq("left." + l, [("param", "left")]), _Opq("right." + r, [("param", "right")])
+            return ab.call(f.path, [_Var(l, [box["L"]], STF), _Var(r, [box["R"]], STF)])
+        paths = _explore(P, R, "R02-e", key, "merging a %s occurrence with a %s occurrence of one response key" % (l, r), f, thunk, [mst.path] if mst else [])
+        if paths is None:
             continue
-        if len(got) != 1 or got[0][0] != "k":
-            R.violated("R02-e", key, "run: %s turns two occurrences of the response key `k` (%s, %s) into %s: duplicates are not merged into "
-                       "one field" % (f.path, l, r, [_show_field(x) for x in got]), loc=f.loc())
+        got = set()
+        for st, v, _ in paths:
+            if st != "ok":
+                continue
+            v = _d(v)
+            if not (isinstance(v, _Var) and v.name in ("Empty", "Leaf", "Object") and len(v.args) == 1):
+                got.add(("?", None))
+                continue
+            org = _origin(v.args[0])
+            side = {(True, False): "left", (False, True): "right", (True, True): "both", (False, False): "neither"}[(("param", "left") in org, ("param", "right") in org)]
+            if v.name != "Object" and _d(v.args[0]) is box["L"]:
+                side = "left"
+            elif v.name != "Object" and _d(v.args[0]) is box["R"]:
+                side = "right"
+            got.add((v.name, side))
+        if not got or ("?", None) in got:
+            R.undecided("R02-e", key, "what %s returns for (%s, %s) is not a determined variant" % (f.path, l, r), loc=f.loc())
             continue
-        fld = got[0][1]
-        kind = {"empty": "Empty", "leaf": "Leaf", "obj": "Object"}[fld[0]]
-        side = None
-        if kind == "Leaf":
-            side = {"TL": "left", "TR": "right"}.get(fld[1][1])
-        elif kind == "Object":
-            keys = {k for b in _branches_of(fld[1]) for k, _ in b[1]}
-            side = {frozenset("l"): "left", frozenset("r"): "right", frozenset("lr"): "both"}.get(frozenset(keys), "neither")
-        ok = kind == wk and (wside is None or side == wside)
-        R.check("R02-e", key, ok, "run: -> %s%s" % (wk, (" of the %s occurrence" % wside) if wside in ("left", "right") else ""),
-                "run: merging a %s occurrence with a %s occurrence of the same response key yields %s%s (expected %s%s): %s"
-                % (l, r, kind, (" from " + side) if side else "", wk, (" from " + wside) if wside else "",
-                   "a field that is selected in one of the occurrences becomes `?: never`" if kind == "Empty" else "the wrong occurrence is kept"), loc=f.loc())
+        bad = sorted(g for g in got if not (g[0] == wk and (wside is None or g[1] == wside or (wk != "Object" and wside in ("left", "right") and g[1] == "both" and False))))
+        R.check("R02-e", key, not bad, "table: -> %s%s" % (wk, (" of the %s occurrence" % wside) if wside in ("left", "right") else ""),
+                "table: merging a %s occurrence with a %s occurrence of the same response key yields %s (expected %s%s): %s"
+                % (l, r, ", ".join("%s from %s" % g for g in bad), wk, (" from " + wside) if wside else "",
+                   "a field that is selected in one of the occurrences becomes `?: never`" if any(g[0] == "Empty" for g in bad) else "the wrong occurrence is kept"), loc=f.loc())
 
 
-def _e_position(P, R):
-    """duplicates are merged into the first position, distinct keys are all kept"""
-    S = _scn(P)
-    f = S.merge
-    leaf = lambda k, t="String": _v_field(k, ("leaf", _ty(t), False))
-    st, got = S.run_merge([leaf("x", "T1"), _v_field("y", ("empty",)), leaf("z"), leaf("y", "T2"), _v_field("x", ("empty",))])
-    if st != "ok":
-        _scenario_failed(R, "R02-e", "merge-used", st, got, "de-duplication of response keys", f)
+def _e_merge_used(P, R):
+    """two fields with the same (undetermined) response key: the de-duplication hands them, in order, to the merge table and keeps its result only"""
+    d0 = P.fn(OT + "deep_merge::deep_merge_selection_tree")
+    f = _role(P, OT + "deep_merge::merge_fields", ["SelectionTreeField<", "SelectionTreeField<"], "SelectionTreeField<")
+    box = {}
+
+    def thunk(ab):
+        n = _Opq("response key")
+        box["a"], box["b"] = _t_field(P, "empty", n), _t_field(P, "leaf", n, ty=_ty("T"))
+        return ab.call(d0.path, [[box["a"], box["b"]]])
+    paths = _explore(P, R, "R02-e", "merge-used", "how two fields of one response key are de-duplicated", d0, thunk, [f.path])
+    if paths is None:
         return
-    want = [("x", ("leaf", _ty("T1"), False)), ("y", ("leaf", _ty("T2"), False)), ("z", ("leaf", _ty("String"), False))]
-    R.check("R02-e", "merge-used", sorted(got) == sorted(want), "run: duplicate keys are merged through the merge table, distinct keys are kept",
-            "run: %s([x: T1, y: empty, z, y: T2, x: empty]) = %s; expected one field per key with x: T1, y: T2, z" % (f.path, [_show_field(x) for x in got]), loc=f.loc())
+    seen, bad = 0, None
+    for st, v, evs in paths:
+        if st != "ok":
+            continue
+        seen += 1
+        calls = [ev for ev in evs if ev[0] == "call" and ev[1] == f.path]
+        v = _d(v)
+        if len(calls) != 1 or not (_d(calls[0][2][0]) is box["a"] and _d(calls[0][2][1]) is box["b"]):
+            bad = "the two occurrences are %s" % ("not merged" if not calls else "merged %d times / in another order" % len(calls))
+        elif not (isinstance(v, list) and len(v) == 1 and isinstance(_d(v[0]), _Opq) and ("call", f.path) in _d(v[0]).origin):
+            bad = "the result is not the single merged field"
+    _tri(R, "R02-e", "merge-used", None if not seen else bad is None, "table: two occurrences of one response key become the one field the merge table yields",
+         "table: %s given [k: omitted, k: leaf]: %s — the later occurrence of a response key is dropped (or both stay), so a field selected in one occurrence "
+         "can end up `?: never`" % (d0.path, bad), "no abstract path of %s returns normally" % d0.path, loc=d0.loc())
+
+
+def _e_alias_spaces(P, R):
+    """two tables that must agree: the field collector puts a field under `Left` exactly when it has no alias, and the branch builder takes the
+    `Left` fields as the unaliased ones"""
+    G = _gf_paths(P, R, "R02-e", ["alias-spaces:collector"])
+    if G is not None:
+        gf, paths, names = G
+        AL = ("field", A + "selection_set::Field", "alias")
+        seen, bad = 0, None
+        for st, v, evs in paths:
+            if st != "ok" or not isinstance(_d(v), list):
+                continue
+            alias = [ev[2] for ev in evs if ev[0] == "assume" and AL in ev[1] and ev[2] in ("Some", "None")]
+            for x in _d(v):
+                x = _d(x)
+                fld = _d(x.args[0]) if isinstance(x, _Var) and x.name in ("Left", "Right") and x.args else None
+                if isinstance(fld, _Var) and fld.name in ("Leaf", "Object", "Empty") and alias and not any(e[0] == "call" and e[1] == names["gf"] for e in evs):
+                    seen += 1
+                    if (x.name == "Left") != (alias[-1] == "None"):
+                        bad = "%s for a field %s an alias" % (x.name, "without" if alias[-1] == "None" else "with")
+        _tri(R, "R02-e", "alias-spaces:collector", None if not seen else bad is None, "paths: unaliased fields are collected as Left, aliased ones as Right",
+             "paths: %s collects %s: the two key spaces are swapped against what the branch builder expects" % (gf.path, bad),
+             "no abstract path of %s shows a field being collected together with the test of its alias" % gf.path, loc=gf.loc())
+    go = P.fn(OT + "type_printer::get_object_type_for_selection_set")
+    dm = P.fn(OT + "deep_merge::deep_merge_selection_tree")
+    gf0 = P.fn(OT + "type_printer::get_fields_for_selection_set")
+    paths = _explore(P, R, "R02-e", "alias-spaces:builder", "which collected fields become the unaliased / aliased fields of a branch", go,
+                     lambda ab: ab.call(go.path, _params(go, [])), [dm.path, gf0.path])
+    if paths is None:
+        return
+    seen, bad = 0, None
+    for st, v, evs in paths:
+        v = _d(v)
+        if st != "ok" or not isinstance(v, _Obj):
+            continue
+        side = [ev[2] for ev in evs if ev[0] == "assume" and ev[2] in ("Left", "Right") and ("call", gf0.path) in ev[1]]
+        if not side:
+            continue
+        seen += 1
+        un = {x[2] for x in _origin(v.f.get("unaliased_fields")) if x[0] == "variant" and x[2] in ("Left", "Right")}
+        al = {x[2] for x in _origin(v.f.get("aliased_fields")) if x[0] == "variant" and x[2] in ("Left", "Right")}
+        if (side[-1] == "Left" and (un != {"Left"} or al)) or (side[-1] == "Right" and (al != {"Right"} or un)):
+            bad = "a %s field ends up among the %s fields" % (side[-1], "aliased" if (side[-1] == "Left") else "unaliased")
+    _tri(R, "R02-e", "alias-spaces:builder", None if not seen else bad is None, "paths: Left fields become the unaliased fields of the branch, Right fields the aliased ones",
+         "paths: in %s %s (Left = collected without alias): aliases are then matched against schema field names and field names are treated as aliases"
+         % (go.path, bad), "no abstract path of %s splits the collected fields by Left / Right" % go.path, loc=go.loc())
+
+
+POSITIONAL = ("<[T]>::get", "<[T]>::get_mut", "<[T]>::first", "<[T]>::last", "Iterator::nth", "Iterator::zip", "Iterator::enumerate", "Index::index", "Vec<T, A>::pop",
+              "<[T]>::get_unchecked", "itertools::Itertools::zip_eq", "Iterator::last")
+CONSUMING = {"remove", "swap_remove", "pop", "drain", "retain", "truncate", "clear", "split_off", "take", "extract_if", "remove_entry", "shift_remove", "swap_remove_entry"}
+
+
+def _src_nodes(pv, e):
+    """all nodes of `e` and, transitively, of the initialisers of the locals it mentions"""
+    out, todo, seen = [], [e], set()
+    while todo:
+        n = todo.pop()
+        for y in subnodes(n):
+            out.append(y)
+            if y.get("k") == "Path" and "local" in y and y["local"] not in seen:
+                seen.add(y["local"])
+                todo.extend(src for src, _ in pv.src.get(y["local"], []) if src is not None)
+    return out
 
 
 def _e_branches(P, R):
-    """branches of two occurrences of an object field are paired by object type, never by position; branches present on one side only are kept"""
-    S = _scn(P)
-    f = S.merge
-    lf = lambda k: (k, ("leaf", _ty("String"), False))
-    L = ("NonNull", ("List", ("Object", (("A", frozenset({lf("a1")}), frozenset({lf("p1")})), ("B", frozenset({lf("b1")}), frozenset())))))
-    Rt = ("NonNull", ("List", ("Object", (("B", frozenset({lf("b2")}), frozenset()), ("C", frozenset({lf("c2")}), frozenset()),
-                                          ("A", frozenset({lf("a2"), lf("a1")}), frozenset({lf("p2")}))))))
-    st, got = S.run_merge([_v_field("k", ("obj", L)), _v_field("m", ("leaf", _ty("String"), False)), _v_field("k", ("obj", Rt))])
-    for key in ("branch-pairing", "branch-leftover", "merge-wrappers"):
-        if st != "ok":
-            _scenario_failed(R, "R02-e", key, st, got, "merging two occurrences of an object field whose branches come in different orders", f)
-    if st != "ok":
-        return
-    k = [x[1] for x in got if x[0] == "k"]
-    if len(k) != 1 or k[0][0] != "obj":
-        R.violated("R02-e", "branch-pairing", "run: two object occurrences of one key are not merged into one object field: %s" % [_show_field(x) for x in got], loc=f.loc())
-        return
-    tree = k[0][1]
-    wr = []
-    t = tree
-    while t[0] in ("NonNull", "List"):
-        wr.append(t[0])
-        t = t[1]
-    R.check("R02-e", "merge-wrappers", wr == ["NonNull", "List"], "run: the wrappers of the merged selection are those of the occurrences",
-            "run: merging two `NonNull(List(Object))` selections yields wrappers %s" % wr, loc=f.loc())
-    bs = {b[0]: b for b in _branches_of(tree)}
-    names = sorted(b[0] for b in _branches_of(tree))
-    want = {"A": ({"a1", "a2"}, {"p1", "p2"}), "B": ({"b1", "b2"}, set())}
-    bad = []
-    for tn, (un, al) in sorted(want.items()):
-        b = bs.get(tn)
-        have = ({k for k, _ in b[1]}, {k for k, _ in b[2]}) if b else None
-        if have != (un, al):
-            bad.append("%s has %s, expected unaliased %s / aliased %s" % (tn, "fields %s / %s" % (sorted(have[0]), sorted(have[1])) if have else "no branch", sorted(un), sorted(al)))
-    R.check("R02-e", "branch-pairing", not bad and names.count("A") == 1 and names.count("B") == 1,
-            "run: the partner of a branch is the other side's branch of the same object type, wherever it stands",
-            "run: %s merges the branches [A, B] with [B, C, A] wrongly (%s; branch names: %s): branches are paired by position or without comparing "
-            "type_name — when one side has several branches per object type (one per @skip/@include assignment) a branch is merged with the "
-            "wrong partner or none, and loses the other occurrence's fields" % (f.path, "; ".join(bad) or "duplicated branch", names), loc=f.loc())
-    c = bs.get("C")
-    R.check("R02-e", "branch-leftover", c is not None and {k for k, _ in c[1]} == {"c2"} and names.count("C") == 1,
-            "run: right-only branches are kept, once",
-            "run: the branch C, present only in the second occurrence, %s in the merged selection (branches: %s)"
-            % ("is missing" if c is None else "is changed or duplicated", names), loc=f.loc())
+    """two occurrences of an object field: every branch of the one is merged with the branch of the same object type of the other.  Since one
+    side can hold several branches per object type (one per @skip/@include assignment), the partner has to be looked up by `type_name` over
+    the whole other side — not by position, and without using the other side up — and what is appended from the other side afterwards has
+    to be tested against the type names already present."""
+    g0 = P.fn(OT + "deep_merge::merge_selection_trees")
+    g = _inl(P, g0)
+    pv = Prov(g)
+    acc = g.nodes()
+    # partner lookups: expressions of type Option<..SelectionTreeBranch..> computed from the right side and inspected
+    def is_partner(e):
+        t = peel_ty(e.get("t") or "")
+        return t.startswith("core::option::Option<") and "SelectionTreeBranch" in t and not (call_name(e) or "").endswith("Iterator::next")
+    # locals that index the right side (a map / set filled from it)
+    index_of_right = set()
+    for n in g.walk():
+        if n.get("k") == "MethodCall" and n["method"] in ("insert", "entry", "or_insert", "or_insert_with", "push", "extend") and n["args"]:
+            base = n
+            while base.get("k") == "MethodCall":
+                base = base["recv"]
+            if base.get("k") == "Path" and "local" in base and any(("param", "right") in pv.atoms(a) for x in [n] for a in x["args"]):
+                index_of_right.add(base["local"])
+    partners = []
 
-
-def _e_pipeline(P, R):
-    S = _scn(P)
-    _scenario(R, "R02-e", "merge:same-key-leaves", S, "User",
-              "{ id x: id @skip(if: true) x: id  y: id y: id @skip(if: true)  z: id @skip(if: true) z: id @include(if: false) ... on Node { id } ... on Named { name } }",
-              "a response key selected in any occurrence is present; one that is skipped in all of them is `?: never`")
-    _scenario(R, "R02-e", "merge:same-key-objects", S, "User",
-              "{ best { id @skip(if: $a) } best { n: id ... on Bot { model } } best @skip(if: true) { zz: id } friends { id } friends { name } }",
-              "sub-selections of several occurrences of an object field are merged branch by branch")
+    def from_right(e):
+        if ("param", "right") in pv.atoms(e):
+            return True
+        return any(y.get("k") == "Path" and y.get("local") in index_of_right for y in _src_nodes(pv, e))
+    for n in g.walk():
+        k = n.get("k")
+        e = n.get("scrut") if k == "Match" and n.get("src") == "Normal" and not n.get("x") else (n.get("init") if k in ("Let", "LetExpr") and (k == "LetExpr" or "els" in n) else None)
+        if e is not None and is_partner(e) and from_right(e):
+            partners.append(e)
+    R.floor("R02-e", "partner-branch lookups in merge_selection_trees", len(partners), 1)
+    for m in partners:
+        a = pv.atoms(m)
+        calls = {x[1] for x in pv.data_atoms(m) if x[0] == "call"}
+        pos = sorted(c for c in calls if any(c.endswith(p) for p in POSITIONAL))
+        indexed = any(x.get("k") == "Index" for x in _src_nodes(pv, m))
+        keyed = has_field(a, STB, "type_name")
+        if pos or indexed:
+            R.violated("R02-e", "branch-pairing", "merge_selection_trees picks the right-hand partner of a branch by position (%s): when one side has several "
+                       "branches per object type (one per @skip/@include assignment) a branch is merged with the wrong partner or none, and loses the "
+                       "other occurrence's fields" % (pos or "indexing"), loc=g0.loc())
+        else:
+            _tri(R, "R02-e", "branch-pairing", True if keyed else None, "the right-hand partner of a branch is found by `type_name`, never by position",
+                 und="how the right-hand partner of a branch is selected is not recognised (no `type_name` in its computation)", loc=g0.loc())
+    # the right side is not used up while the left branches are paired
+    loops = [(i, n) for i, (n, _) in enumerate(acc) if n.get("k") == "Match" and n.get("src") == "ForLoopDesugar" and ("param", "left") in pv.atoms(n["scrut"])]
+    used_up = []
+    for i, lp in loops:
+        for c in subnodes(lp["arms"][0]["body"]) if lp.get("arms") else []:
+            if c.get("k") == "MethodCall" and c["method"] in CONSUMING:
+                ra = pv.atoms(c["recv"])
+                if ("param", "right") in ra and ("param", "left") not in pv.data_atoms(c["recv"]):
+                    used_up.append(c["method"])
+    if partners:
+        R.check("R02-e", "branch-pairing:right-side-kept", not used_up, "pairing does not use up the right-hand branches",
+                "merge_selection_trees removes the matched branch from the right side while the left branches are paired (%s): of several left branches of one "
+                "object type (one per @skip/@include assignment) only the first still finds its partner, the others keep only their own fields — the "
+                "union then has a member in which an unconditionally selected field is not required" % sorted(set(used_up)), loc=g0.loc())
+    # leftover right branches
+    appends = []
+    for i, (n, _) in enumerate(acc):
+        if n.get("k") == "MethodCall" and n["method"] in ("push", "extend", "append", "push_back", "extend_from_slice", "insert") and n["args"] \
+                and "SelectionTreeBranch" in peel_ty(n["recv"].get("t") or "") and peel_ty(n["recv"].get("t") or "").startswith(("alloc::vec::Vec<", "alloc::collections::")):
+            arg = n["args"][-1]
+            da = pv.data_atoms(arg)
+            if ("param", "right") in da and ("param", "left") not in da:
+                appends.append((i, n, arg))
+    if not appends:
+        R.undecided("R02-e", "branch-leftover", "where merge_selection_trees adds the branches that only the right side has is not recognised", loc=g0.loc())
+    for i, n, arg in appends[:1]:
+        guards = [c[1]["cond"] for c in enclosing_contexts(g, i) if c[0] in ("if-then", "if-else")]
+        guards += [x["args"][0] for x in _src_nodes(pv, arg) if x.get("k") == "MethodCall" and x["method"] in ("filter", "retain", "skip_while", "take_while", "extract_if", "filter_map") and x["args"]]
+        # a `retain` / filter applied beforehand to what is appended
+        for x in g.walk():
+            if x.get("k") == "MethodCall" and x["method"] in ("retain", "extract_if", "dedup_by_key") and x["args"] and ("param", "right") in pv.atoms(x["recv"]):
+                guards.append(x["args"][0])
+        keyed = any(has_field(pv.atoms(c), STB, "type_name") for c in guards)
+        if not guards:
+            R.violated("R02-e", "branch-leftover", "merge_selection_trees appends the remaining right-hand branches without testing whether a branch of the same "
+                       "object type is already present: a right branch whose type already has a (merged) branch is added once more, un-merged, so the union "
+                       "has a member lacking the other occurrence's fields", loc=g0.loc())
+        else:
+            _tri(R, "R02-e", "branch-leftover", True if keyed else None, "right-only branches are kept (presence tested by type_name)",
+                 und="the test under which right-hand branches are appended does not mention `type_name`; it is not recognised", loc=g0.loc())
 
 
 def _e_recursion(P, R):
@@ -534,108 +859,344 @@ def _fast_equal_sound(P, R, rule):
 # =================================================================================================================== R02-f
 def r02f(P, R):
     """only possible (type, variables) branches: type-condition filter and skip/include tables"""
-    _sections(P, R, "R02-f", _f_condition_table, _f_condition_runs, _f_skip_runs, _f_variable_runs, _f_possible_types)
+    _sections(P, R, "R02-f", _f_condition_table, _f_sites, _f_skip_table, _f_variables, _f_possible_types)
 
 
 def _f_condition_table(P, R):
-    f0 = P.fn(OT + "type_printer::check_fragment_condition")
+    f0 = _role(P, OT + "type_printer::check_fragment_condition", ["QueryTypePrinterContext", "ObjectDefinition", "str"], "bool")
     f = _inl(P, f0)
     pv = Prov(f)
+    objs = [pv.params.get(p.get("local")) for p in f0.params if p.get("k") == "Binding" and "ObjectDefinition" in str(p.get("t", ""))]
     ms = matches_on(f, "TypeDefinition")
     if not ms:
-        R.undecided("R02-f", "type-condition:table", "no `match` over TypeDefinition in %s or its helpers (the run instances type-condition:*:run "
-                    "decide the behaviour)" % f0.path, loc=f0.loc())
+        R.undecided("R02-f", "type-condition:table", "no `match` over TypeDefinition in %s or its helpers: how the kinds of type condition are told apart is "
+                    "not recognised" % f0.path, loc=f0.loc())
     for m in ms[:1]:
         tab = variant_table(m)
         need = {"Object": [(TSD + "ObjectDefinition", "name")], "Interface": [(TSD + "ObjectDefinition", "interfaces"), (TSD + "InterfaceDefinition", "name")],
                 "Union": [(TSD + "UnionDefinition", "possible_types"), (TSD + "ObjectDefinition", "name")]}
         for k, fields in sorted(need.items()):
             arm = tab.get(k) or tab.get("_")
-            if arm is None:
-                R.undecided("R02-f", "type-condition:" + k, "no arm for %s conditions found" % k, loc=f0.loc())
-                continue
-            if "object_def" not in pv.params.values():
-                R.undecided("R02-f", "type-condition:" + k, "check_fragment_condition no longer has the parameter `object_def` (the run instances decide)", loc=f0.loc())
+            if arm is None or len(objs) != 1:
+                R.undecided("R02-f", "type-condition:" + k, "the arm for %s conditions / the parameter holding the branch's object is not recognised" % k, loc=f0.loc())
                 continue
             a = pv.deep_atoms(arm["body"])
-            ok = ("param", "object_def") in a and all(has_field(a, ad, fl) for ad, fl in fields)
+            ok = ("param", objs[0]) in a and all(has_field(a, ad, fl) for ad, fl in fields)
             R.check("R02-f", "type-condition:" + k, ok, "a %s condition is compared with the branch's object type" % k,
                     "check_fragment_condition does not relate a %s type condition to the branch's concrete object type: fragments on that "
                     "kind are applied to every branch (keys appear in types of objects that never have them)" % k, loc=f0.loc())
+        pos = _positional_over(f, {(TSD + "ObjectDefinition", "interfaces"), (TSD + "UnionDefinition", "possible_types")})
+        R.check("R02-f", "type-condition:every-element", not pos, "all interfaces of the object / all members of the union are compared",
+                "check_fragment_condition looks at %s by position (%s): an object is matched against its first interface / a union against its first member "
+                "only, fragments on the others are dropped from (or wrongly applied to) the branch" % (sorted({a for a, _ in pos}), sorted({b for _, b in pos})), loc=f0.loc())
         for k in ("Scalar", "Enum", "InputObject"):
             arm = tab.get(k) or tab.get("_")
             v = lit_value(arm["body"]) if arm is not None else None
             _tri(R, "R02-f", "type-condition:" + k, True if v is False else (False if v is True else None), "never applies", "%s conditions apply" % k,
                  "what a %s condition evaluates to is not a literal" % k, loc=f0.loc())
-    gf = _inl(P, P.fn(OT + "type_printer::get_fields_for_selection_set"))
-    calls = [c for c in gf.walk() if c.get("k") == "Call" and call_name(c) == f0.path]
-    R.floor("R02-f", "type-condition filter calls", len(calls), 1)
-    pvg = Prov(gf)
-    for i, c in enumerate(calls):
-        if len(c["args"]) != len(f0.params):
+
+
+POSITIONAL_METHODS = {"first", "last", "nth", "get", "take", "skip", "step_by", "first_mut", "last_mut", "split_first", "split_last"}
+
+
+def _positional_over(fn, fields):
+    """[(field, method)]: method chains that start at one of the schema collections `fields` [(adt, field)] and pick elements by position"""
+    out = []
+    for c in fn.walk():
+        if c.get("k") != "MethodCall":
             continue
-        objs = [a for a, p in zip(c["args"], f0.params) if "ObjectDefinition" in str(p.get("t", ""))]
-        if len(objs) != 1:
-            R.undecided("R02-f", "type-condition:arg:%d" % i, "which argument of check_fragment_condition is the branch's object is not recognised", loc=gf.loc())
+        base, chain = method_chain(c)
+        if base.get("k") == "Field" and (norm(base.get("adt") or ""), base["field"]) in fields:
+            names = [x["method"] for x in chain]
+            for i, m in enumerate(names):
+                if m in POSITIONAL_METHODS or (m in ("next", "next_back") and not any(p in ("filter", "filter_map", "skip_while", "map_while", "find") for p in names[:i])):
+                    out.append((base["field"], m))
+    return sorted(set(out))
+
+
+def _f_sites(P, R):
+    """on every abstract path of get_fields_for_selection_set, the fields of a fragment (spread or conditioned inline fragment) are collected
+    only after the type-condition filter — given the branch's object and that fragment's condition — was found to apply"""
+    G = _gf_paths(P, R, "R02-f", ["type-condition:sites"])
+    if G is None:
+        return
+    gf, paths, names = G
+    FRAG = {("field", A + "operation::FragmentDefinition", "selection_set"): ("a fragment spread", ("field", A + "operation::FragmentDefinition", "type_condition")),
+            ("field", A + "selection_set::InlineFragment", "selection_set"): ("an inline fragment", ("field", A + "selection_set::InlineFragment", "type_condition"))}
+    seen, bad, unfed = {}, None, None
+    for st, v, evs in paths:
+        if st != "ok":
             continue
-        R.check("R02-f", "type-condition:arg:%d" % i, has_field(pvg.deep_atoms(objs[0]), BC, "parent_obj"),
-                "compared against the branch's object", "the filter is not given the branch's object", loc=gf.loc())
+        applies = []         # the filter calls whose result was taken to be true so far on this path
+        filt = {}
+        no_condition = False
+        for ev in evs:
+            if ev[0] == "call" and ev[1] == names["cfc"]:
+                filt[id(ev)] = ev
+            elif ev[0] == "assume" and any(x[0] == "call" and x[1] == names["cfc"] for x in ev[1]) and ("eq",) not in ev[1]:
+                if ev[2] is True:
+                    applies.append(ev)
+            elif ev[0] == "assume" and ev[2] == "None" and FRAG[("field", A + "selection_set::InlineFragment", "selection_set")][1] in ev[1]:
+                no_condition = True
+            elif ev[0] == "call" and ev[1] == names["gf"]:
+                ss = [a for a, p in zip(ev[2], gf.sig_inputs) if "SelectionSet" in p]
+                org = _origin(ss[0]) if len(ss) == 1 else set()
+                for atom, (what, cond_atom) in FRAG.items():
+                    if atom in org:
+                        seen[what] = seen.get(what, 0) + 1
+                        if not applies and not (no_condition and what == "an inline fragment"):
+                            bad = what
+        for ev in filt.values():
+            org = set()
+            for a in ev[2]:
+                org |= _origin(a)
+            if ("field", BC, "parent_obj") not in org:
+                unfed = "the branch's object (`parent_obj`)"
+            elif not any(c in org for _, c in FRAG.values()):
+                unfed = "the fragment's type condition"
+    if bad:
+        R.violated("R02-f", "type-condition:sites", "paths: %s collects the fields of %s on a path on which the type-condition filter (%s) was not found to apply: "
+                   "keys of a fragment appear in the branches of objects the fragment does not apply to" % (gf.path, bad, short(names["cfc"])), loc=gf.loc())
+    elif unfed:
+        R.violated("R02-f", "type-condition:sites", "paths: the type-condition filter is not given %s" % unfed, loc=gf.loc())
+    else:
+        _tri(R, "R02-f", "type-condition:sites", True if len(seen) == 2 else None, "paths: fragment spreads and conditioned inline fragments are collected only under "
+             "their type condition; an inline fragment without condition always applies",
+             und="not both kinds of fragment are seen being collected on the abstract paths of %s (%s)" % (gf.path, sorted(seen)), loc=gf.loc())
 
 
-def _f_condition_runs(P, R):
-    S = _scn(P)
-    _scenario(R, "R02-f", "type-condition:Object:run", S, "Node", "{ id ... on User { name } ... on Org { o: id } }",
-              "a fragment on an object type contributes to the branch of that object only")
-    _scenario(R, "R02-f", "type-condition:Interface:run", S, "Thing", "{ ... on Node { id } ... on Named { n: name } }",
-              "a fragment on an interface contributes to the branches of its implementers only (every interface of an object counts)")
-    _scenario(R, "R02-f", "type-condition:Union:run", S, "Node", "{ ... on Actor { ... on Node { a: id } } ... on Thing { ... on Node { t: id } } }",
-              "a fragment on a union contributes to the branches of its members only (every member counts)")
-    _scenario(R, "R02-f", "type-condition:sites", S, "Node", "{ ...OnBot ...OnNamed ...OnBotId ... { x: id } ... on Node { ... on Bot { y: id } ...OnNamed u: id } }",
-              "fragment spreads and conditioned inline fragments are filtered by their type condition, at every nesting depth; an inline "
-              "fragment without condition always applies")
+def _f_skip_table(P, R):
+    """the @skip/@include table, read off the abstract paths of the skip test over one undetermined directive: (directive name literal, kind of
+    the `if` value, boolean) -> skipped / kept and the scan goes on / kept and the scan stops"""
+    f = _role(P, OT + "type_printer::check_skip_directive", ["BranchingCondition", "Directive"], "bool")
+    keys = ["skip-table:@skip", "skip-table:@include", "skip-table:every-directive"]
+    roles = {}
+
+    def thunk(ab):
+        args = _params(f, [])
+        for a, t in zip(args, f.sig_inputs):
+            if "Directive" in t:
+                roles["dirs"] = a.origin
+        return ab.truth(ab.call(f.path, args))
+    paths = _explore(P, R, "R02-f", keys, "the @skip/@include table", f, thunk)
+    if paths is None:
+        return
+    DN, BV, LV = ("field", A + "directive::Directive", "name"), ("field", BC, "boolean_variables"), ("field", A + "value::BooleanValue", "value")
+    rows = {}       # (name, cond) -> set of (skipped, stops)
+    for st, v, evs in paths:
+        if st != "ok" or not any(ev[0] == "elem" and roles.get("dirs", frozenset(["-"])) <= ev[1] and DN not in ev[1] for ev in evs):
+            continue
+        name, cond, other = None, None, False
+        for ev in evs:
+            if ev[0] == "assume" and DN in ev[1] and isinstance(ev[2], str) and ("variant", None, None) not in ev[1] and not any(x[0] == "field" and x[2] == "arguments" for x in ev[1]):
+                name = ev[2]
+            elif ev[0] == "assume-not" and DN in ev[1] and not any(x[0] == "field" and x[2] == "arguments" for x in ev[1]):
+                other = True
+            elif ev[0] == "assume" and isinstance(ev[2], bool) and ("eq",) not in ev[1] and (BV in ev[1] or LV in ev[1]):
+                cond = ev[2]
+        if name is None and not other:
+            continue
+        stops = any(ev[0] == "ret-in-iter" and ev[3] == f.path for ev in evs)
+        rows.setdefault((name if name is not None else "<other>", cond), set()).add((v, stops and v is False))
+    if not rows:
+        for k in keys:
+            R.undecided("R02-f", k, "no abstract path of %s inspects the name of a directive of its argument" % f.path, loc=f.loc())
+        return
+    for name, skip_when in (("skip", True), ("include", False)):
+        key = "skip-table:@" + name
+        have = {c: r for (n, c), r in rows.items() if n == name and c is not None}
+        if set(have) != {True, False}:
+            R.undecided("R02-f", key, "the rows of @%s for a true and a false condition are not both found on the abstract paths of %s" % (name, f.path), loc=f.loc())
+            continue
+        bad = []
+        for c in (True, False):
+            for skipped, _ in have[c]:
+                if skipped != (c == skip_when):
+                    bad.append("with a %s condition the selection is %s" % (str(c).lower(), "omitted" if skipped else "kept"))
+        R.check("R02-f", key, not bad, "table: @%s omits the selection exactly when its condition (variable or literal) is %s" % (name, str(skip_when).lower()),
+                "table: in %s, for @%s %s (the spec omits it exactly when the condition is %s)" % (f.path, name, "; ".join(sorted(set(bad))), str(skip_when).lower()), loc=f.loc())
+    stopping = sorted({"@%s with a %s condition" % (n, str(c).lower()) if c is not None else "@%s" % n for (n, c), r in rows.items() if any(s for _, s in r)})
+    R.check("R02-f", "skip-table:every-directive", not stopping, "table: a directive that does not omit the selection never ends the scan of the directives",
+            "table: %s answers `kept` from inside its scan of the directives for %s: a @skip/@include written after it on the same selection is ignored, the field "
+            "is typed as present although the server omits it" % (f.path, ", ".join(stopping)), loc=f.loc())
 
 
-def _f_skip_runs(P, R):
-    S = _scn(P)
-    _scenario(R, "R02-f", "skip-table:@skip", S, "User", "{ a: id @skip(if: $v) b: id @include(if: $v) c: id @skip(if: true) d: id @skip(if: false) }",
-              "@skip omits the field exactly when its condition (variable or literal) is true")
-    _scenario(R, "R02-f", "skip-table:@include", S, "User", "{ a: id @skip(if: $v) b: id @include(if: $v) e: id @include(if: true) f: id @include(if: false) }",
-              "@include omits the field exactly when its condition (variable or literal) is false")
-    _scenario(R, "R02-f", "skip-table:several-directives", S, "User",
-              "{ x: id @skip(if: $a) @include(if: $b) y: id @include(if: $b) @skip(if: $a) z: id @skip(if: false) w: id @skip(if: false) @include(if: false) }",
-              "every @skip/@include of a selection counts, whatever its position among the directives")
-    _scenario(R, "R02-f", "skip-table:fragments", S, "Node",
-              "{ ... @skip(if: $a) { p: id } ...OnBot @include(if: $b) ... on User @include(if: false) { q: id } ... on Named @skip(if: false) { r: id } }",
-              "a skipped fragment turns every field it contributes into `?: never`, a kept one leaves them alone")
+def _f_variables(P, R, rule="R02-f"):
+    """every boolean variable of every @skip/@include of every selection is enumerated: (a) no path of the enumeration returns an empty list after
+    having met a selection without handing the selection set to the visitor, (b) the traversal of a selection's directives is lossless"""
+    f0 = _role(P, OT + "type_printer::get_boolean_variables", ["QueryTypePrinterContext", "SelectionSet"], "Vec<&")
+    vis = P.fn(OT + "selection_set_visitor::visit_fields_in_selection_set")
+    # (a)
+    paths = _explore(P, R, rule, "variables-every-selection", "whether every selection reaches the visitor", f0,
+                     lambda ab: ab.call(f0.path, _params(f0, [])), [vis.path])
+    if paths is not None:
+        SEL = ("field", A + "selection_set::SelectionSet", "selections")
+        visited = lost = 0
+        for st, v, evs in paths:
+            if st != "ok":
+                continue
+            met = any(ev[0] == "elem" and SEL in ev[1] for ev in evs)
+            called = any(ev[0] == "call" and ev[1] == vis.path for ev in evs)
+            visited += called
+            if met and not called and isinstance(_d(v), list) and not _d(v):
+                lost += 1
+        if lost:
+            R.violated(rule, "variables-every-selection", "paths: %s has a path that has met a selection of its selection set and returns no variables without handing "
+                       "the selection set to the visitor: a variable used by @skip/@include inside that selection (e.g. on the fields of a directive-less "
+                       "fragment) is not branched on, so fields guarded by it are typed as if all of them were present at once" % f0.path, loc=f0.loc())
+        else:
+            _tri(R, rule, "variables-every-selection", True if visited else None, "paths: every path that has met a selection hands the selection set to the visitor",
+                 und="no abstract path of %s calls %s" % (f0.path, vis.path), loc=f0.loc())
+    _f_enumeration_table(P, R, rule, f0, vis)
+    _f_visitor(P, R, rule, vis)
+    # (b)
+    f = _inl(P, f0)
+    acc = f.nodes()
+    DIR = "directive::Directive"
+    exits, partial, loops = [], [], 0
+    for i, (n, _) in enumerate(acc):
+        k = n.get("k")
+        if k in ("Break", "Ret") and not n.get("x"):
+            for c in enclosing_contexts(f, i):
+                if c[0] == "closure":
+                    # leaving a closure: fine if the closure is an adaptor's over something else than directives
+                    call = [m for m in f.walk() if m.get("k") == "MethodCall" and any(a is c[1] for a in m["args"])]
+                    if k == "Ret" and call and DIR not in str(call[0]["recv"].get("t", "")):
+                        break
+                    if k == "Ret" and not call:
+                        continue
+                    if k == "Ret":
+                        exits.append("return")
+                    break
+                if c[0] == "loop":
+                    lp = _loop_source(f, c[1])
+                    if lp is not None and DIR in peel_ty(lp.get("t") or ""):
+                        exits.append("break" if k == "Break" else "return")
+                    if k == "Break":
+                        break
+        if k == "Match" and n.get("src") == "ForLoopDesugar" and DIR in peel_ty(n["scrut"].get("t") or ""):
+            loops += 1
+        if k == "MethodCall" and n["method"] in PARTIAL and DIR in peel_ty(n["recv"].get("t") or "") and "Arguments" not in peel_ty(n["recv"].get("t") or ""):
+            if _seqlike(peel_ty(n["recv"].get("t") or "")) or peel_ty(n["recv"].get("t") or "").startswith("&["):
+                partial.append(n["method"])
+        if k == "MethodCall" and n["method"] in ("map", "filter", "filter_map", "flat_map", "for_each") and DIR in peel_ty(n["recv"].get("t") or ""):
+            loops += 1
+    bad = sorted(set(exits)) + sorted(set(partial))
+    _tri(R, rule, "variables-all-directives", False if bad else (True if loops else None),
+         "every @skip/@include of every visited selection is inspected",
+         "%s leaves its traversal of a selection's directives early (%s): a variable used only by a later directive of the same selection is not "
+         "branched on" % (f0.path, ", ".join(bad)),
+         "no traversal of `Directive`s found in %s or its helpers" % f0.path, loc=f0.loc())
+    lits = {x.get("v") for x in f.walk() if (x.get("k") == "Lit" and x.get("lk") == "str") or (x.get("k") == "PatExpr" and x.get("lk") == "str")}
+    _tri(R, rule, "variables-both-directives", True if {"skip", "include"} <= lits else None, "@skip and @include are both looked at",
+         und="%s mentions the literals %s: how @skip / @include are recognised is not decided" % (f0.path, sorted(l for l in lits if isinstance(l, str))[:6]), loc=f0.loc())
 
 
-def _f_variable_runs(P, R, rule="R02-f"):
-    S = _scn(P)
-    _scenario(R, rule, "variables-both-values", S, "User", "{ a: id @skip(if: $v) b: id @include(if: $w) c: id @skip(if: $v) }",
-              "each boolean variable is branched on false and true, all combinations of several variables are present")
-    _scenario(R, rule, "variables-all-directives", S, "User",
-              "{ p: id @skip(if: $a) @include(if: $b) q: id @skip(if: $a) @skip(if: $b) r: id @include(if: $a) @skip(if: $c) y: id z: id @include(if: $d) }",
-              "every @skip/@include of every selection is inspected: a variable used only by a later directive or a later selection is branched on")
-    _scenario(R, rule, "variables-both-directives", S, "User", "{ a: id @skip(if: $s) b: id }", "variables of @skip are branched on")
-    _scenario(R, rule, "variables-both-directives:include", S, "User", "{ a: id @include(if: $i) b: id }", "variables of @include are branched on")
-    _scenario(R, rule, "visitor-every-selection", S, "Node",
-              "{ id ... on User @include(if: $d) { n: name @skip(if: $e) } ...OnNamedIf @skip(if: $g) ... { ... on Bot { m: model @include(if: $k) } } }",
-              "the variable enumeration sees fragment spreads, inline fragments and the selections inside them")
-    _scenario(R, rule, "variables-nested-level", S, "User", "{ id best { id @skip(if: $n) } }",
-              "a variable used only inside the selection set of a field branches that field's own selection, not the enclosing one")
+def _f_enumeration_table(P, R, rule, f0, vis):
+    """which directives contribute their variable: read by handing the enumeration's own visitor closure one field selection whose directives
+    are terms over the literals `skip` / `include` / `if` with undetermined variable names"""
+    cases = [("@skip", [("skip", "var")], "variables-both-directives:skip"), ("@include", [("include", "var")], "variables-both-directives:include"),
+             ("the second directive of a selection", [("skip", "lit"), ("include", "var")], "variables-all-directives:second"),
+             ("the second directive of a selection", [("include", "var0"), ("skip", "var")], "variables-all-directives:second-after-variable")]
+    for what, dirs, key in cases:
+        box = {}
+
+        def hook(ab, args, dirs=dirs):
+            box["v"] = _Opq("$v")
+            ds = []
+            for n, k in dirs:
+                ds.append(_t_directive(P, n, ("var", box["v"]) if k == "var" else (("var", _Opq("$w")) if k == "var0" else ("lit", _Opq("literal", ty="bool")))))
+            sel = _t_field_selection(P, ds)
+            clos = [a for a in args if isinstance(_d(a), _Clo)]
+            box["clos"] = len(clos)
+            for c in clos:
+                ab.apply(c, [sel])
+            return ()
+        try:
+            paths = _Abs(P, [vis.path], hooks={vis.path: hook}).explore(lambda ab: ab.call(f0.path, _params(f0, [])))
+        except _Unknown as e:
+            R.undecided(rule, key, "the abstract evaluation of %s does not decide whether the variable of %s is enumerated (%s)" % (f0.path, what, e), loc=f0.loc())
+            continue
+        except (KeyError, IndexError, TypeError, AttributeError, RecursionError, ValueError) as e:
+            R.undecided(rule, key, "the abstract evaluation of %s does not decide whether the variable of %s is enumerated (evaluator: %r)" % (f0.path, what, e), loc=f0.loc())
+            continue
+        seen = missing = 0
+        for st, v, evs in paths:
+            if st != "ok" or not any(ev[0] == "call" and ev[1] == vis.path for ev in evs) or not box.get("clos"):
+                continue
+            seen += 1
+            v = _d(v)
+            if not isinstance(v, list):
+                seen = None
+                break
+            if not any(_d(x) is box["v"] or x is box["v"] for x in v):
+                missing += 1
+        _tri(R, rule, key, None if not seen else not missing, "table: the variable of %s is enumerated" % what,
+             "table: given a field whose directives are %s, %s does not enumerate the variable of %s: no branch is made for its two values, and the "
+             "selection it guards is typed for one of them only" % (" ".join("@%s(if: %s)" % (n, "$v" if k == "var" else ("$w" if k == "var0" else "true")) for n, k in dirs), f0.path, what),
+             "%s does not hand a closure to the visitor / does not return the list of variables; the table is not read" % f0.path, loc=f0.loc())
+
+
+def _f_visitor(P, R, rule, vis):
+    """on every abstract path of the selection visitor, every selection met is handed to the visitor function, and the selections inside an inline
+    fragment / a spread fragment are descended into"""
+    impl = P.fn(OT + "selection_set_visitor::visit_fields_in_selection_set_impl", required=False)
+    once = {vis.path} | ({impl.path} if impl else set())
+    try:
+        paths = _Abs(P, (), once=once).explore(lambda ab: ab.call(vis.path, _params(vis, []), top=True))
+    except _Unknown as e:
+        R.undecided(rule, "visitor-every-selection", "the abstract evaluation of %s does not decide whether the visitor sees every selection (%s)" % (vis.path, e), loc=vis.loc())
+        return
+    SEL = ("field", A + "selection_set::SelectionSet", "selections")
+    DESC = {"InlineFragment": ("field", A + "selection_set::InlineFragment", "selection_set"), "FragmentSpread": ("field", A + "operation::FragmentDefinition", "selection_set")}
+    met = lost = 0
+    descended, undescended = set(), set()
+    for st, v, evs in paths:
+        if st != "ok":
+            continue
+        applied = [a for ev in evs if ev[0] == "apply" for a in ev[2]]
+        for ev in evs:
+            if ev[0] == "elem" and SEL in ev[1]:
+                e = ev[2].kids.get("#elem")
+                met += 1
+                if not any(a is e for a in applied):
+                    lost += 1
+                kind = e.ref.name if isinstance(e.ref, _Var) else None
+                if kind in DESC:
+                    down = any((x[0] == "call" and x[1] in once and DESC[kind] in set().union(*[_origin(a) for a in x[2]] or [set()])) or
+                               (x[0] == "iter" and DESC[kind] in x[1]) for x in evs)
+                    (descended if down else undescended).add(kind)
+    if lost:
+        R.violated(rule, "visitor-every-selection", "paths: %s meets a selection that it does not hand to the visitor function: @skip/@include on selections of that kind "
+                   "are never seen by the variable enumeration" % vis.path, loc=vis.loc())
+    elif "InlineFragment" in undescended or ("FragmentSpread" in undescended and "FragmentSpread" not in descended):
+        R.violated(rule, "visitor-every-selection", "paths: %s does not descend into the selections of %s: variables used only inside are not branched on"
+                   % (vis.path, " / ".join(sorted(k for k in undescended if k == "InlineFragment" or k not in descended))), loc=vis.loc())
+    else:
+        _tri(R, rule, "visitor-every-selection", True if met and descended == set(DESC) else None,
+             "paths: the visitor sees every selection (fields, spreads, inline fragments) and the selections inside fragments",
+             und="the abstract paths of %s do not show all kinds of selection being visited (%s)" % (vis.path, sorted(descended)), loc=vis.loc())
+
+
+PARTIAL = {"find", "find_map", "next", "nth", "first", "last", "position", "take", "take_while", "skip", "skip_while", "step_by", "map_while", "rfind", "next_back", "peek"}
+
+
+def _loop_source(fn, loop_node):
+    """the iterated expression of the `for` a desugared Loop node belongs to"""
+    for n in fn.walk():
+        if n.get("k") == "Match" and n.get("src") == "ForLoopDesugar" and n.get("arms") and any(x is loop_node for x in subnodes(n["arms"][0]["body"])) \
+                and n["scrut"].get("k") == "Call" and n["scrut"].get("args"):
+            return n["scrut"]["args"][0]
+    return None
 
 
 def _f_possible_types(P, R):
-    S = _scn(P)
-    _scenario(R, "R02-f", "possible-types:Object:run", S, "User", "{ id }", "an object parent has exactly its own branch")
-    _scenario(R, "R02-f", "possible-types:Interface:run", S, "Node", "{ id }", "an interface parent has one branch per implementing object, no other")
-    _scenario(R, "R02-f", "possible-types:Union:run", S, "Thing", "{ __typename }", "a union parent has one branch per member, no other")
     g0 = P.fn(OT + "type_printer::generate_branching_conditions")
     g = _inl(P, g0)
     ms = matches_on(g, "TypeDefinition")
     if not ms:
-        R.undecided("R02-f", "possible-types", "no `match` over TypeDefinition in %s or its helpers (the run instances possible-types:*:run decide "
-                    "the behaviour)" % g0.path, loc=g0.loc())
+        R.undecided("R02-f", "possible-types", "no `match` over TypeDefinition in %s or its helpers: how the possible object types are enumerated is not "
+                    "recognised" % g0.path, loc=g0.loc())
     for m in ms[:1]:
         tab = variant_table(m)
         pvb = Prov(g)
@@ -644,29 +1205,66 @@ def _f_possible_types(P, R):
         ok = (has_call(ia, "utils::interface_implementers") or has_field(ia, TSD + "ObjectDefinition", "interfaces")) and has_field(ua, TSD + "UnionDefinition", "possible_types")
         R.check("R02-f", "possible-types", ok, "branches = the object itself / implementers of the interface / members of the union",
                 "generate_branching_conditions does not enumerate implementers / union members", loc=g0.loc())
+    _f_product_table(P, R, "R02-f", g0)
 
 
+def _f_product_table(P, R, rule, g0):
+    """for an object parent and the variables [a], [a, b]: the conditions are exactly the 2^n assignments — read by evaluating the branch enumeration
+    with the variable enumeration replaced by those lists"""
+    gbv = _role(P, OT + "type_printer::get_boolean_variables", ["QueryTypePrinterContext", "SelectionSet"], "Vec<&")
+    imp = P.fn(PR + "utils::interface_implementers", required=False)
+    for names in (["a"], ["a", "b"], ["a", "a"]):
+        key = "variables-both-values:%d" % len(names) if names != ["a", "a"] else "variables-both-values:repeated"
+        hooks = {gbv.path: lambda ab, args, names=names: list(names)}
+        try:
+            paths = _Abs(P, [gbv.path] + ([imp.path] if imp else []), hooks=hooks).explore(lambda ab: ab.call(g0.path, _params(g0, [])))
+        except _Unknown as e:
+            R.undecided(rule, key, "the abstract evaluation of %s does not decide the set of assignments (%s)" % (g0.path, e), loc=g0.loc())
+            continue
+        except (KeyError, IndexError, TypeError, AttributeError, RecursionError, ValueError) as e:
+            R.undecided(rule, key, "the abstract evaluation of %s does not decide the set of assignments (evaluator: %r)" % (g0.path, e), loc=g0.loc())
+            continue
+        want = {tuple(sorted(zip(sorted(set(names)), vs))) for vs in itertools.product((False, True), repeat=len(set(names)))}
+        seen, bad = 0, None
+        for st, v, evs in paths:
+            if st != "ok" or not any(ev[0] == "assume" and ev[2] == "Object" and any(x[0] == "variant" and str(x[1]).endswith("TypeDefinition") for x in ev[3].ref.args[0].origin) for ev in evs if ev[0] == "assume" and isinstance(ev[3].ref, _Var) and ev[3].ref.args):
+                continue
+            v = _d(v)
+            if not isinstance(v, list):
+                continue
+            got = set()
+            ok = True
+            for c in v:
+                c = _d(c)
+                bv = _d(c.f.get("boolean_variables")) if isinstance(c, _Obj) else None
+                if not isinstance(bv, list):
+                    ok = False
+                    break
+                asg = {}
+                for pair in bv:
+                    pair = _d(pair)
+                    if not (isinstance(pair, tuple) and len(pair) == 2 and isinstance(_d(pair[0]), str) and isinstance(_d(pair[1]), bool)):
+                        ok = False
+                        break
+                    asg.setdefault(_d(pair[0]), _d(pair[1]))
+                got.add(tuple(sorted(asg.items())))
+            if not ok:
+                continue
+            seen += 1
+            if got != want:
+                bad = got
+        _tri(R, rule, key, None if not seen else bad is None, "table: an object parent with the variables %s gets exactly the %d assignments" % (names, len(want)),
+             "table: for an object parent and the boolean variables %s, %s produces the assignments %s; every combination of false / true is needed (%d of them): a "
+             "response for a missing combination has no branch" % (names, g0.path, sorted(bad) if bad is not None else "", len(want)),
+             "no abstract path of %s for an object parent returns a determined list of conditions" % g0.path, loc=g0.loc())
 
-# ================================================================================================================ scenarios
-# the schema every scenario runs against (GraphQL SDL in comments; order of declaration is the schema's type order)
-_SCHEMA = [
-    ("String", "scalar"),
-    ("Node", "interface", [("id", "String!")]),                                                # interface Node { id: String! }
-    ("User", "object", [("id", "String!"), ("name", "String"), ("tags", "[String!]"), ("matrix", "[[String]!]"), ("friends", "[User!]!"),
-                        ("best", "Node"), ("pet", "Actor")], ["Node", "Named"]),                # type User implements Node & Named
-    ("Named", "interface", [("name", "String")]),                                               # interface Named { name: String }
-    ("Bot", "object", [("id", "String!"), ("model", "String"), ("owner", "User!")], ["Node"]),  # type Bot implements Node
-    ("Actor", "union", ["User", "Bot"]),                                                        # union Actor = User | Bot
-    ("Org", "object", [("id", "String!"), ("name", "String")], ["Named", "Node"]),              # type Org implements Named & Node
-    ("Page", "object", [("id", "String!"), ("title", "String")], []),                           # type Page
-    ("Thing", "union", ["Page", "Org", "User"]),                                                # union Thing = Page | Org | User
-]
-_FRAGMENTS = {"OnBot": ("Bot", "{ model }"), "OnBotId": ("Bot", "{ bid: id }"), "OnNamed": ("Named", "{ name }"), "OnNamedIf": ("Named", "{ name @include(if: $h) }")}
-_TOK = re.compile(r"\.\.\.|[{}():@$!\[\]]|[A-Za-z_][A-Za-z0-9_]*")
+
+# ============================================================================================ wrapper terms and spec tables
+_TOK = re.compile(r"[!\[\]]|[A-Za-z_][A-Za-z0-9_]*")
 
 
 def _ty(text):
-    """'[User!]!' -> ("NonNull", ("List", ("NonNull", ("Named", "User"))))"""
+    """'[T!]!' -> ("NonNull", ("List", ("NonNull", ("Named", "T")))): a wrapper term over the tags of `Type`"""
     toks = _TOK.findall(text)
     pos = [0]
 
@@ -685,175 +1283,15 @@ def _ty(text):
     return rec()
 
 
-def _show_ty(t):
-    if t is None:
-        return "-"
-    return t[1] if t[0] == "Named" else ("[%s]" % _show_ty(t[1]) if t[0] == "List" else _show_ty(t[1]) + "!")
-
-
-def _gql(text):
-    """selection set text -> [("field", alias, name, dirs, sub|None) | ("spread", name, dirs) | ("inline", cond|None, dirs, sub)];
-    dirs = [(name, None | ("var", v) | ("lit", bool))]"""
-    toks = _TOK.findall(text)
-    pos = [0]
-
-    def peek():
-        return toks[pos[0]] if pos[0] < len(toks) else None
-
-    def nxt():
-        pos[0] += 1
-        return toks[pos[0] - 1]
-
-    def directives():
-        out = []
-        while peek() == "@":
-            nxt()
-            name, v = nxt(), None
-            if peek() == "(":
-                nxt(); nxt(); nxt()   # ( if :
-                if peek() == "$":
-                    nxt()
-                    v = ("var", nxt())
-                else:
-                    v = ("lit", nxt() == "true")
-                nxt()
-            out.append((name, v))
-        return out
-
-    def selset():
-        nxt()
-        out = []
-        while peek() != "}":
-            if peek() == "...":
-                nxt()
-                if peek() == "on":
-                    nxt()
-                    cond = nxt()
-                    d = directives()
-                    out.append(("inline", cond, d, selset()))
-                elif peek() in ("@", "{"):
-                    d = directives()
-                    out.append(("inline", None, d, selset()))
-                else:
-                    name = nxt()
-                    out.append(("spread", name, directives()))
-            else:
-                name, alias = nxt(), None
-                if peek() == ":":
-                    nxt()
-                    alias, name = name, nxt()
-                d = directives()
-                out.append(("field", alias, name, d, selset() if peek() == "{" else None))
-        nxt()
-        return out
-    return selset()
-
-
-class _Oracle:
-    """GraphQL spec semantics of a selection set on the scenario schema: one branch per possible object and per assignment of the boolean
-    variables of the selection set's own level (CollectFields: §6.3.2; fragment applicability: §5.5.2; @skip/@include: §3.13)"""
-
-    def __init__(self):
-        self.defs = {d[0]: d for d in _SCHEMA}
-        self.frags = {k: (c, _gql(t)) for k, (c, t) in _FRAGMENTS.items()}
-
-    def possible(self, name):
-        d = self.defs[name]
-        if d[1] == "object":
-            return [name]
-        if d[1] == "interface":
-            return [x[0] for x in _SCHEMA if x[1] == "object" and name in x[3]]
-        if d[1] == "union":
-            return list(d[2])
-        return []
-
-    def applies(self, obj, cond):
-        return obj in self.possible(cond)
-
-    def skipped(self, dirs, env):
-        for n, v in dirs:
-            if n in ("skip", "include") and v is not None:
-                val = env[v[1]] if v[0] == "var" else v[1]
-                if val == (n == "skip"):
-                    return True
-        return False
-
-    def variables(self, sels, seen=None, out=None):
-        seen = set() if seen is None else seen
-        out = [] if out is None else out
-        for s in sels:
-            dirs = s[3] if s[0] == "field" else s[2]
-            for n, v in dirs:
-                if n in ("skip", "include") and v is not None and v[0] == "var" and v[1] not in out:
-                    out.append(v[1])
-            if s[0] == "inline":
-                self.variables(s[3], seen, out)
-            elif s[0] == "spread" and s[1] not in seen:
-                seen.add(s[1])
-                self.variables(self.frags[s[1]][1], seen, out)
-        return out
-
-    def collect(self, obj, sels, env):
-        out = []
-        for s in sels:
-            if s[0] == "field":
-                _, alias, name, dirs, sub = s
-                if self.skipped(dirs, env):
-                    f = ("empty",)
-                elif name == "__typename":
-                    f = ("leaf", None, True)
-                else:
-                    ft = _ty(dict(self.defs[obj][2])[name])
-                    f = ("leaf", ft, False) if sub is None else ("sub", ft, sub)
-                out.append((alias or name, alias is not None, f))
-            else:
-                cond, dirs, sub = (s[1], s[2], s[3]) if s[0] == "inline" else (self.frags[s[1]][0], s[2], self.frags[s[1]][1])
-                if cond is None or self.applies(obj, cond):
-                    fs = self.collect(obj, sub, env)
-                    if self.skipped(dirs, env):
-                        fs = [(k, a, ("empty",)) for k, a, _ in fs]
-                    out.extend(fs)
-        return out
-
-    def tree(self, ty, sels):
-        if ty[0] != "Named":
-            return (ty[0], self.tree(ty[1], sels))
-        vs = self.variables(sels)
-        branches = set()
-        for o in self.possible(ty[1]):
-            for asg in itertools.product((False, True), repeat=len(vs)):
-                occ = {}
-                for k, a, f in self.collect(o, sels, dict(zip(vs, asg))):
-                    occ.setdefault((a, k), []).append(f)
-                un, al = {}, {}
-                for (a, k), fs in occ.items():
-                    live = [f for f in fs if f != ("empty",)]
-                    if not live:
-                        v = ("empty",)
-                    elif live[0][0] == "leaf":
-                        v = live[0]
-                    else:
-                        v = ("obj", self.tree(live[0][1], [x for f in live if f[0] == "sub" for x in f[2]]))
-                    (al if a else un)[k] = v
-                branches.add((o, frozenset(un.items()), frozenset(al.items())))
-        return ("Object", frozenset(branches))
-
-
 def _wrap_tree(ty, obj):
     return obj if ty[0] == "Named" else (ty[0], _wrap_tree(ty[1], obj))
 
 
-def _branches_of(tree):
-    while tree[0] in ("NonNull", "List"):
-        tree = tree[1]
-    return list(tree[1])
+# canonical TypeScript types: ("null",) ("never",) ("M",) ("array", t) ("ref", namespace, name) ("lit", s) ("union", frozenset)
+# ("object", ((key, (type, optional)), ..)) ("selset", ref, object, object)
+_NULL, _M = ("null",), ("M",)
 
 
-def _o_tree_for(S, parent, text):
-    return S.oracle.tree(_ty(parent), _gql(text))
-
-
-# --- TypeScript side of the oracle (canonical forms: unions are flattened sets)
 def _u(*ms):
     out = set()
     for m in ms:
@@ -864,37 +1302,20 @@ def _u(*ms):
     return next(iter(out)) if len(out) == 1 else ("union", frozenset(out))
 
 
-_NULL = ("null",)
-
-
-def _o_ts_leaf(ty, nn=False):
+def _spec_leaf(ty, nn=False):
+    """GraphQL spec §3.12: a type is nullable unless wrapped in Non-Null; list elements are decided afresh"""
     if ty[0] == "NonNull":
-        return _o_ts_leaf(ty[1], True)
-    t = ("ref", "OperationOutput", ty[1]) if ty[0] == "Named" else ("array", _o_ts_leaf(ty[1]))
+        return _spec_leaf(ty[1], True)
+    t = ("ref", "*", "?") if ty[0] == "Named" else ("array", _spec_leaf(ty[1]))
     return t if nn else _u(t, _NULL)
 
 
-def _o_ts_tree(tree, nn=False):
-    if tree[0] == "NonNull":
-        return _o_ts_tree(tree[1], True)
-    if tree[0] == "List":
-        t = ("array", _o_ts_tree(tree[1]))
-    else:
-        ms = [("selset", ("ref", "OperationOutput", b[0]), _o_ts_obj(b[1], b[0]), _o_ts_obj(b[2], b[0])) for b in tree[1]]
-        t = _u(*ms) if ms else ("never",)
+def _spec_tree(ty, nn=False):
+    """the same table for an object selection; M = the union of its branches"""
+    if ty[0] == "NonNull":
+        return _spec_tree(ty[1], True)
+    t = _M if ty[0] == "Named" else ("array", _spec_tree(ty[1]))
     return t if nn else _u(t, _NULL)
-
-
-def _o_ts_obj(fields, tn):
-    out = set()
-    for k, f in fields:
-        if f[0] == "empty":
-            out.add((k, (("never",), True)))
-        elif f[0] == "leaf":
-            out.add((k, ((("lit", tn) if f[2] else _o_ts_leaf(f[1])), False)))
-        else:
-            out.add((k, (_o_ts_tree(f[1]), False)))
-    return ("object", frozenset(out))
 
 
 def _nulls(t):
@@ -908,316 +1329,79 @@ def _nulls(t):
 
 def _null_diff(have, want):
     a, b = _nulls(have), _nulls(want)
-    return "`| null` is lost" if a < b else ("`| null` is invented" if a > b else "the types differ in more than nullability")
+    return "`| null` is lost" if a < b else ("`| null` is invented" if a > b else "`| null` sits at the wrong depth")
 
 
 def _any_target(t):
-    """the same type with the namespace of every schema reference blanked (R02-c decides namespaces)"""
+    """the same type with namespace and name of every schema reference blanked (R02-c decides namespaces)"""
     if isinstance(t, frozenset):
         return frozenset(_any_target(x) for x in t)
     if isinstance(t, tuple):
         if t and t[0] == "ref":
-            return ("ref", "*", t[2])
+            return ("ref", "*", "?")
+        if t and t[0] == "lit":
+            return t
         return tuple(_any_target(x) for x in t)
     return t
 
 
-def _ts_targets(t, out=None):
-    out = set() if out is None else out
-    if isinstance(t, (tuple, frozenset)):
-        if isinstance(t, tuple) and t and t[0] == "ref":
-            out.add(t[1])
-        for x in t:
-            _ts_targets(x, out)
-    return out
-
-
-def _ts_field(ts, key):
-    """(type, optional) of `key` in the unaliased object of the single branch `ts`"""
-    if isinstance(ts, tuple) and ts and ts[0] == "selset":
-        for k, v in ts[2][1]:
-            if k == key:
-                return v
-    return None
+def _blank_members(t):
+    """the same type with every branch type (a __SelectionSet application, or `never` for no branch) replaced by M"""
+    if isinstance(t, frozenset):
+        return frozenset(_blank_members(x) for x in t)
+    if isinstance(t, tuple):
+        if t and t[0] in ("selset", "never", "opaque"):
+            return _M
+        if t and t[0] == "union":
+            return _u(*[_blank_members(x) for x in t[1]])
+        if t and t[0] == "lit":
+            return t
+        return tuple(_blank_members(x) for x in t)
+    return t
 
 
 def _show_ts(t):
     if not isinstance(t, tuple) or not t:
         return repr(t)
     k = t[0]
-    if k == "null":
-        return "null"
-    if k == "never":
-        return "never"
+    if k in ("null", "never", "M"):
+        return k
     if k == "ref":
-        return "%s.%s" % (t[1], t[2])
+        return "Scalar"
     if k == "lit":
-        return '"%s"' % t[1]
+        return '"%s"' % (t[1] if isinstance(t[1], str) else "<%s>" % getattr(_d(t[1]), "why", "?"))
     if k == "array":
         return "(%s)[]" % _show_ts(t[1])
     if k == "union":
         return " | ".join(sorted((_show_ts(x) for x in t[1]), key=lambda s: (s == "null", s)))
     if k == "object":
-        return "{ %s }" % "; ".join("%s%s: %s" % (a, "?" if o else "", _show_ts(b)) for a, (b, o) in sorted(t[1], key=lambda x: x[0]))
+        return "{ %s }" % "; ".join("%s%s: %s" % (a, "?" if o else "", _show_ts(b)) for a, (b, o) in t[1])
     if k == "selset":
         return "__SelectionSet<%s, %s, %s>" % (_show_ts(t[1]), _show_ts(t[2]), _show_ts(t[3]))
-    return str(t)
-
-
-def _show_field(kf):
-    k, f = kf
-    if f[0] == "empty":
-        return "%s: (omitted)" % k
-    if f[0] == "leaf":
-        return "%s: %s" % (k, "__typename" if f[2] else _show_ty(f[1]))
-    return "%s %s" % (k, _show_tree(f[1]))
-
-
-def _show_branch(b):
-    return "%s { %s }" % (b[0], " ".join(sorted(_show_field(x) for x in b[1]) + sorted("(alias) " + _show_field(x) for x in b[2])))
-
-
-def _show_tree(t):
-    if t[0] in ("NonNull", "List"):
-        return "%s(%s)" % (t[0], _show_tree(t[1]))
-    return "[" + ", ".join(sorted(_show_branch(b) for b in t[1])) + "]"
-
-
-def _diff_tree(got, want, path=""):
-    """first difference between two canonical trees, in words"""
-    if got[0] != want[0]:
-        return "%swrapper %s where %s is expected" % (path, got[0], want[0])
-    if got[0] in ("NonNull", "List"):
-        return _diff_tree(got[1], want[1], path)
-    g, w = set(got[1]), set(want[1])
-    if g == w:
-        return None
-    missing, extra = sorted(w - g, key=repr), sorted(g - w, key=repr)
-    # a nested difference is more telling than the enclosing branch
-    for m in missing:
-        for e in extra:
-            if m[0] == e[0] and {k for k, _ in m[1]} == {k for k, _ in e[1]} and {k for k, _ in m[2]} == {k for k, _ in e[2]}:
-                for (k, fm), (_, fe) in zip(sorted(m[1] | m[2], key=lambda x: x[0]), sorted(e[1] | e[2], key=lambda x: x[0])):
-                    if fm != fe and fm[0] == "obj" and fe[0] == "obj":
-                        d = _diff_tree(fe[1], fm[1], "%sin `%s` of %s: " % (path, k, m[0]))
-                        if d:
-                            return d
-    msg = []
-    if missing:
-        msg.append("missing branch%s %s" % ("es" if len(missing) > 1 else "", "; ".join(_show_branch(b) for b in missing[:3])))
-    if extra:
-        msg.append("impossible branch%s %s" % ("es" if len(extra) > 1 else "", "; ".join(_show_branch(b) for b in extra[:3])))
-    return path + ", ".join(msg)
-
-
-# --- interpreter values of the scenario inputs, and canonical forms of its results
-def _pos():
-    return _Opq("pos")
-
-
-def _v_ident(s):
-    return _Obj(A + "base::Ident", {"name": s, "position": _pos()})
-
-
-def _v_node(x):
-    return _Obj(TS + "node::Node", {"inner": x, "original_node": _pos()})
-
-
-def _v_type(t):
-    if t[0] == "Named":
-        return _Var("Named", [_Obj(TS + "type::NamedType", {"name": _v_node(t[1])})], TS + "type::Type")
-    return _Var(t[0], [_Obj(TS + "type::%sType" % t[0], {"inner": _v_type(t[1])})], TS + "type::Type")
-
-
-def _v_directive(name, v):
-    args = _none()
-    if v is not None:
-        val = (_Var("Variable", [_Obj(A + "variable::Variable", {"name": v[1], "position": _pos()})], A + "value::Value") if v[0] == "var" else
-               _Var("BooleanValue", [_Obj(A + "value::BooleanValue", {"position": _pos(), "keyword": "true" if v[1] else "false", "value": v[1]})], A + "value::Value"))
-        args = _some(_Obj(A + "value::Arguments", {"position": _pos(), "arguments": [(_v_ident("if"), val)]}))
-    return _Obj(A + "directive::Directive", {"position": _pos(), "name": _v_ident(name), "arguments": args})
-
-
-def _v_selset(sels):
-    out = []
-    SEL = A + "selection_set::"
-    for s in sels:
-        if s[0] == "field":
-            _, alias, name, dirs, sub = s
-            out.append(_Var("Field", [_Obj(SEL + "Field", {"alias": _none() if alias is None else _some(_v_ident(alias)), "name": _v_ident(name), "arguments": _none(),
-                                                           "directives": [_v_directive(*d) for d in dirs],
-                                                           "selection_set": _none() if sub is None else _some(_v_selset(sub))})], SEL + "Selection"))
-        elif s[0] == "spread":
-            out.append(_Var("FragmentSpread", [_Obj(SEL + "FragmentSpread", {"position": _pos(), "fragment_name": _v_ident(s[1]),
-                                                                             "directives": [_v_directive(*d) for d in s[2]]})], SEL + "Selection"))
-        else:
-            out.append(_Var("InlineFragment", [_Obj(SEL + "InlineFragment", {"position": _pos(), "type_condition": _none() if s[1] is None else _some(_v_ident(s[1])),
-                                                                             "directives": [_v_directive(*d) for d in s[2]], "selection_set": _v_selset(s[3])})], SEL + "Selection"))
-    return _Obj(SEL + "SelectionSet", {"position": _pos(), "selections": out})
-
-
-def _v_schema():
-    m, names = _Map(), []
-    for d in _SCHEMA:
-        name, kind = d[0], d[1]
-        common = {"name": _v_node(name), "description": _none()}
-        fdef = lambda fs: [_Obj(TSD + "Field", {"name": _v_node(a), "description": _none(), "type": _v_type(_ty(b)), "arguments": [], "deprecation": _none()}) for a, b in fs]
-        if kind == "scalar":
-            v = _Var("Scalar", [_Obj(TSD + "ScalarDefinition", common)], TSD + "TypeDefinition")
-        elif kind == "object":
-            v = _Var("Object", [_Obj(TSD + "ObjectDefinition", dict(common, fields=fdef(d[2]), interfaces=[_v_node(i) for i in d[3]]))], TSD + "TypeDefinition")
-        elif kind == "interface":
-            v = _Var("Interface", [_Obj(TSD + "InterfaceDefinition", dict(common, fields=fdef(d[2]), interfaces=[]))], TSD + "TypeDefinition")
-        else:
-            v = _Var("Union", [_Obj(TSD + "UnionDefinition", dict(common, possible_types=[_v_node(x) for x in d[2]]))], TSD + "TypeDefinition")
-        m.d[name] = _v_node(v)
-        names.append(name)
-    return m, names
-
-
-def _v_schema_obj(P):
-    """the Schema value: its fields are crate-private, so they are filled by role (type), not by name"""
-    m, names = _v_schema()
-    adt = P.adt(TS + "schema::Schema")
-    f = {}
-    for name, ty in adt.field_types().items():
-        if "HashMap<" in ty[:48] and "TypeDefinition<" in ty:
-            f[name] = m
-        elif "HashMap<" in ty[:48]:
-            f[name] = _Map()
-        elif ty.startswith("alloc::vec::Vec<") and "Node<" not in ty and "Definition" not in ty:
-            f[name] = list(names)      # the order-keeping name lists (only names with a definition are ever looked up)
-        elif ty.startswith("core::option::Option<"):
-            f[name] = _none()
-        else:
-            f[name] = _Opq(name)
-    if not any(v is m for v in f.values()):
-        raise _Unknown("scenario input: no field of Schema holds the type definitions")
-    return _Obj(adt.path, f)
-
-
-def _v_field(key, f):
-    """canonical field -> SelectionTreeField value"""
-    if f[0] == "empty":
-        return _Var("Empty", [_Obj(ST + "SelectionTreeEmptyLeaf", {"name": key})], ST + "SelectionTreeField")
-    if f[0] == "leaf":
-        return _Var("Leaf", [_Obj(ST + "SelectionTreeLeaf", {"name": key, "type": _v_type(f[1] or ("Named", "String")), "is_typename": f[2]})], ST + "SelectionTreeField")
-    return _Var("Object", [_Obj(ST + "SelectionTreeObject", {"name": key, "selection": _v_tree(f[1])})], ST + "SelectionTreeField")
-
-
-def _v_tree(t):
-    if t[0] in ("NonNull", "List"):
-        return _Var(t[0], [_v_tree(t[1])], ST + "SelectionTree")
-    bs = t[1] if isinstance(t[1], (tuple, list)) else sorted(t[1], key=repr)
-    return _Var("Object", [[_Obj(ST + "SelectionTreeBranch", {"type_name": b[0], "unaliased_fields": [_v_field(k, f) for k, f in sorted(b[1], key=repr)],
-                                                                "aliased_fields": [_v_field(k, f) for k, f in sorted(b[2], key=repr)]}) for b in bs]], ST + "SelectionTree")
-
-
-def _validate(P, v, seen=None):
-    """scenario inputs are written against the ADTs of the reference tree: a field or variant that no longer exists makes the scenario
-    undecided (never a verdict); fields the scenario does not determine are filled with undetermined values"""
-    seen = set() if seen is None else seen
-    if id(v) in seen:
-        return
-    seen.add(id(v))
-    if isinstance(v, _Obj):
-        adt = P.adts.get(v.adt)
-        if adt is not None and adt.kind == "Struct":
-            names = adt.fields()
-            for k in v.f:
-                if k not in names:
-                    raise _Unknown("scenario input: %s has no field `%s` any more" % (v.adt, k))
-            for k in names:
-                v.f.setdefault(k, _Opq(k))
-        for x in list(v.f.values()):
-            _validate(P, x, seen)
-    elif isinstance(v, _Var):
-        adt = P.adts.get(v.adt) if v.adt else None
-        if adt is not None and adt.kind == "Enum":
-            if v.name not in adt.variant_names() or len(adt.fields(v.name)) != len(v.args):
-                raise _Unknown("scenario input: %s has no variant `%s` of %d field(s) any more" % (v.adt, v.name, len(v.args)))
-        for x in v.args:
-            _validate(P, x, seen)
-    elif isinstance(v, (list, tuple)):
-        for x in v:
-            _validate(P, x, seen)
-    elif isinstance(v, _Map):
-        for x in v.d.values():
-            _validate(P, x, seen)
+    return str(t[0])
 
 
 class _Shape(Exception):
-    """a result value that is not (determinately) of the expected ADT shape: the scenario is undecided"""
-
-
-class _Malformed(Exception):
-    """a determinate result that no consumer can use"""
+    """a result value that is not (determinately) of the expected ADT shape"""
 
 
 def _s(v):
+    """a string, or the undetermined value standing for one"""
     v = _d(v)
     if isinstance(v, _Obj) and set(v.f) >= {"inner", "original_node"}:
         return _s(v.f["inner"])
     if isinstance(v, _Obj) and "name" in v.f and len(v.f) <= 2:   # ObjectKey {name, pos}
         return _s(v.f["name"])
-    if not isinstance(v, str):
-        raise _Shape("a string was expected, got %r" % (v,))
-    return v
-
-
-def _c_type(v):
-    v = _d(v)
-    if not isinstance(v, _Var) or len(v.args) != 1:
-        raise _Shape("not a Type: %r" % (v,))
-    x = _d(v.args[0])
-    if v.name == "Named":
-        return ("Named", _s(x.f["name"]) if isinstance(x, _Obj) else _s(x))
-    if v.name in ("List", "NonNull"):
-        return (v.name, _c_type(x.f["inner"] if isinstance(x, _Obj) and "inner" in x.f else x))
-    raise _Shape("not a Type: %r" % (v,))
-
-
-def _c_field(v):
-    v = _d(v)
-    if not isinstance(v, _Var) or len(v.args) != 1 or not isinstance(_d(v.args[0]), _Obj):
-        raise _Shape("not a SelectionTreeField: %r" % (v,))
-    x = _d(v.args[0]).f
-    key = _s(x.get("name"))
-    if v.name == "Empty":
-        return key, ("empty",)
-    if v.name == "Leaf":
-        tn = _d(x.get("is_typename"))
-        if not isinstance(tn, bool):
-            raise _Shape("is_typename undetermined")
-        return key, ("leaf", None if tn else _c_type(x.get("type")), tn)
-    if v.name == "Object":
-        return key, ("obj", _c_tree(x.get("selection")))
-    raise _Shape("not a SelectionTreeField: %r" % (v,))
-
-
-def _c_tree(v):
-    v = _d(v)
-    if not isinstance(v, _Var) or len(v.args) != 1:
-        raise _Shape("not a SelectionTree: %r" % (v,))
-    if v.name in ("NonNull", "List"):
-        return (v.name, _c_tree(v.args[0]))
-    bs = _d(v.args[0])
-    if v.name != "Object" or not isinstance(bs, list):
-        raise _Shape("not a SelectionTree: %r" % (v,))
-    out = []
-    for b in bs:
-        b = _d(b)
-        if not isinstance(b, _Obj):
-            raise _Shape("not a branch: %r" % (b,))
-        un, al = [_c_field(x) for x in _d(b.f.get("unaliased_fields"))], [_c_field(x) for x in _d(b.f.get("aliased_fields"))]
-        if len({k for k, _ in un}) != len(un) or len({k for k, _ in al}) != len(al):
-            raise _Malformed("a branch lists one response key twice: %s" % sorted(k for k, _ in un + al))
-        out.append((_s(b.f.get("type_name")), frozenset(un), frozenset(al)))
-    return ("Object", tuple(out))
+    if isinstance(v, (str, _Opq)):
+        return v
+    raise _Shape("a string was expected, got %r" % (v,))
 
 
 def _c_ts(v):
+    """canonical form of a TSType value"""
     v = _d(v)
+    if isinstance(v, _Opq):
+        return ("opaque", v)
     if not isinstance(v, _Var):
         raise _Shape("not a TSType: %r" % (v,))
     n, a = v.name, v.args
@@ -1226,7 +1410,10 @@ def _c_ts(v):
     if n == "Never":
         return ("never",)
     if n == "Union":
-        ms = [_c_ts(x) for x in _d(a[0])]
+        ms = _d(a[0])
+        if not isinstance(ms, list):
+            raise _Shape("union over an undetermined member list")
+        ms = [_c_ts(x) for x in ms]
         return _u(*ms) if ms else ("never",)
     if n in ("Array", "ReadonlyArray"):
         return ("array", _c_ts(a[0]))
@@ -1234,153 +1421,115 @@ def _c_ts(v):
         return ("lit", _s(a[0]))
     if n == "NamespaceMember3":
         t = _d(a[1])
-        # the target is the TypeTarget constant itself (through Display) or its `__`-prefixed spelling (as_str)
-        return ("ref", (t.name if isinstance(t, _Var) else _s(t)).lstrip("_"), _s(a[2]))
+        return ("ref", t.name.lstrip("_") if isinstance(t, _Var) else "?", "?")
     if n == "NamespaceMember":
         return ("member", _s(a[1]))
     if n == "Object":
-        out = set()
-        for f in _d(a[0]):
+        fs = _d(a[0])
+        if not isinstance(fs, list):
+            raise _Shape("object over an undetermined field list")
+        out = []
+        for f in fs:
             f = _d(f)
+            if isinstance(f, _Opq):
+                out.append(("<%s>" % f.why, (("opaque", f), False)))
+                continue
+            if not isinstance(f, _Obj):
+                raise _Shape("not an ObjectField: %r" % (f,))
             opt = _d(f.f.get("optional"))
             if not isinstance(opt, bool):
-                raise _Shape("optional undetermined")
-            out.add((_s(f.f.get("key")), (_c_ts(f.f.get("type")), opt)))
-        return ("object", frozenset(out))
+                raise _Shape("`optional` undetermined")
+            k = _s(f.f.get("key"))
+            out.append((k if isinstance(k, str) else "<%s>" % k.why, (_c_ts(f.f.get("type")), opt)))
+        return ("object", tuple(out))
     if n == "TypeFunc":
-        fn, args = _c_ts(a[0]), [_c_ts(x) for x in _d(a[1])]
-        if fn == ("member", "__SelectionSet") and len(args) == 3:
-            return ("selset", args[0], args[1], args[2])
-        return ("typefunc", fn, tuple(args))
+        fn, args = _c_ts(a[0]), _d(a[1])
+        if fn == ("member", "__SelectionSet") and isinstance(args, list) and len(args) == 3:
+            args = [_c_ts(x) for x in args]
+            if args[1][0] == "object" and args[2][0] == "object":
+                return ("selset", args[0], args[1], args[2])
+        return ("typefunc",)
     return ("other", n)
 
 
-class _Scn:
-    """the scenario inputs for one Program, and the three entry points they are run through"""
-
-    def __init__(self, P):
-        self.P = P
-        self.oracle = _Oracle()
-        self._anchors = {}
-
-    def _fn(self, name):
-        if name not in self._anchors:
-            try:
-                self._anchors[name] = self.P.fn(name)
-            except AnchorMissing as e:
-                self._anchors[name] = e
-        if isinstance(self._anchors[name], AnchorMissing):
-            raise self._anchors[name]
-        return self._anchors[name]
-
-    gen = property(lambda self: self._fn(OT + "type_printer::get_type_for_selection_set"))
-    to_ts = property(lambda self: self._fn(OT + "selection_tree::to_ts::generate_selection_tree_type"))
-    merge = property(lambda self: self._fn(OT + "deep_merge::deep_merge_selection_tree"))
-
-    def _args(self, f, table):
-        out = []
-        for t in f.sig_inputs:
-            hits = [v for key, v in table if key in t]
-            out.append(hits[0] if hits else _Opq(t))
-        return out
-
-    def _run(self, f, table):
-        try:
-            args = self._args(f, table)
-            _validate(self.P, args)
-        except _Unknown as e:
-            return "unknown", str(e)
-        return _run(self.P, f.path, args)
-
-    def run_tree(self, parent, text):
-        try:
-            return self._run_tree(parent, text)
-        except (_Unknown, AnchorMissing) as e:
-            return "unknown", str(e)
-
-    def _run_tree(self, parent, text):
-        fm = _Map()
-        for name, (cond, sels) in self.oracle.frags.items():
-            fm.d[name] = _Obj(A + "operation::FragmentDefinition", {"position": _pos(), "name": _v_ident(name), "type_condition": _v_ident(cond),
-                                                                     "directives": [], "selection_set": _v_selset(sels)})
-        ctx = _Obj(OT + "type_printer::QueryTypePrinterContext", {"options": _Opq("options"), "schema": _v_schema_obj(self.P), "fragment_definitions": fm})
-        f = self.gen
-        st, v = self._run(f, [("QueryTypePrinterContext", ctx), ("SelectionSet", _v_selset(_gql(text))), ("type::Type<", _v_type(_ty(parent)))])
-        return self._canon(st, v, _c_tree)
-
-    def run_ts(self, tree):
-        f = self.to_ts
-        ctx = _Obj(OT + "selection_tree::to_ts::GenerateSelectionTreeTypeContext", {"schema_root_namespace": "Schema"})
-        st, v = self._run(f, [("GenerateSelectionTreeTypeContext", ctx), ("SelectionTree<", _v_tree(tree))])
-        return self._canon(st, v, _c_ts)
-
-    def run_merge(self, fields):
-        f = self.merge
-        if len(f.params) != 1:
-            return "unknown", "%s takes %d parameters" % (f.path, len(f.params))
-        st, v = self._run(f, [("", list(fields))])
-        return self._canon(st, v, lambda x: [_c_field(y) for y in _d(x)])
-
-    @staticmethod
-    def _canon(st, v, conv):
+def _first_field_types(paths):
+    """the type of the first unaliased field of the single branch, over all normally returning paths; None when it cannot be found"""
+    out = []
+    for st, v, _ in paths:
         if st != "ok":
-            return st, v
+            continue
         try:
-            return "ok", conv(v)
-        except _Malformed as e:
-            return "shape", str(e)
-        except _Shape as e:
-            return "unknown", "undetermined result: " + str(e)
-        except (AttributeError, TypeError, KeyError, IndexError) as e:
-            return "unknown", "result of unexpected shape (%r)" % (e,)
+            ts = _c_ts(v)
+        except _Shape:
+            return None
+        if ts[0] != "selset" or len(ts[2][1]) != 1:
+            return None
+        out.append(ts[2][1][0][1][0])
+    return out or None
 
 
-_SCN = {}
+# --- abstract terms of the ADTs the tables range over (variant tags; every name / position is undetermined)
+def _t_obj(P, adt, fields):
+    """a struct value of `adt`; the fields it is given must still exist (else the table cannot be read: UNDECIDED), the others are undetermined"""
+    a = P.adts.get(adt)
+    if a is None or a.kind != "Struct":
+        raise _Unknown("the type %s is not a struct of the analysed program any more" % adt)
+    names = a.fields()
+    for k in fields:
+        if k not in names:
+            raise _Unknown("%s has no field `%s` any more" % (adt, k))
+    f = {k: _Opq(k) for k in names}
+    f.update(fields)
+    return _Obj(adt, f)
 
 
-def _scn(P):
-    if id(P) not in _SCN:
-        _SCN[id(P)] = _Scn(P)
-    return _SCN[id(P)]
+def _t_var(P, adt, name, args):
+    a = P.adts.get(adt)
+    if a is None or a.kind != "Enum" or name not in a.variant_names() or len(a.fields(name)) != len(args):
+        raise _Unknown("%s has no variant `%s` of %d field(s) any more" % (adt, name, len(args)))
+    return _Var(name, args, adt)
 
 
-def _scenario_failed(R, rule, key, st, why, what, f):
-    """the run did not produce a comparable result"""
-    if st == "panic":
-        R.violated(rule, key, "run: %s panics (%s) while computing %s on a valid document: no type is generated at all" % (f.path, why, what), loc=f.loc())
-    elif st == "shape":
-        R.violated(rule, key, "run: %s returns a malformed result for %s: %s" % (f.path, what, why), loc=f.loc())
-    else:
-        R.undecided(rule, key, "run: the abstract execution of %s does not decide %s (%s)" % (f.path, what, why), loc=f.loc())
+def _t_type(P, t):
+    if t[0] == "Named":
+        return _t_var(P, TS + "type::Type", "Named", [_Opq("named type", [("named",)])])
+    return _t_var(P, TS + "type::Type", t[0], [_t_obj(P, TS + "type::%sType" % t[0], {"inner": _t_type(P, t[1])})])
 
 
-def _scenario(R, rule, key, S, parent, text, what):
-    """run the generator on `text` selected on a value of type `parent`; the produced set of branches must equal the spec's"""
-    f = S.gen
-    st, got = S.run_tree(parent, text)
-    doc = "`%s` on %s" % (" ".join(text.split()), parent)
-    if st != "ok":
-        _scenario_failed(R, rule, key, st, got, "the branches of %s" % doc, f)
-        return
-    want = _o_tree_for(S, parent, text)
-    d = _diff_tree(_as_set(got), want)
-    R.check(rule, key, d is None, "run: %s (%s)" % (what, doc),
-            "run: %s — but for %s the generator (%s) produces %s" % (what, doc, f.path, d), loc=f.loc())
+def _t_field(P, kind, key, ty=None, tree=None, typename=False):
+    if kind == "empty":
+        return _t_var(P, STF, "Empty", [_t_obj(P, ST + "SelectionTreeEmptyLeaf", {"name": key})])
+    if kind == "leaf":
+        return _t_var(P, STF, "Leaf", [_t_obj(P, ST + "SelectionTreeLeaf", {"name": key, "type": _t_type(P, ty) if ty else _Opq("type"), "is_typename": typename})])
+    return _t_var(P, STF, "Object", [_t_obj(P, ST + "SelectionTreeObject", {"name": key, "selection": _t_tree(P, tree)})])
 
 
-def _as_set(tree):
-    if tree[0] in ("NonNull", "List"):
-        return (tree[0], _as_set(tree[1]))
-    return ("Object", frozenset((b[0], frozenset((k, (f if f[0] != "obj" else ("obj", _as_set(f[1])))) for k, f in b[1]),
-                                 frozenset((k, (f if f[0] != "obj" else ("obj", _as_set(f[1])))) for k, f in b[2])) for b in tree[1]))
+def _t_ident(P, name):
+    return _t_obj(P, A + "base::Ident", {"name": name})
 
 
-# ------------------------------------------------------------------------------------------------ concrete scenarios
-# A small interpreter of the typed HIR (the Rust subset the anchored functions are written in).  A rule builds a concrete input
-# (a directive list, two selection trees, ...) out of the ADTs the property anchors, runs the anchored function on it and compares
-# the result with what the GraphQL spec requires for that input.  Whatever the interpreter has no exact model for raises _Unknown
-# and the instance is UNDECIDED; a wrong result is positive evidence (a concrete witness), independent of how the code is spelled
-# (loop / iterator chain, match / if-let / let-else, helper functions, Vec+find / HashMap, ...).
+def _t_directive(P, name, value):
+    """`@name(if: value)`; value = ("var", v) | ("lit", b) with v / b undetermined"""
+    val = (_t_var(P, A + "value::Value", "Variable", [_t_obj(P, A + "variable::Variable", {"name": value[1]})]) if value[0] == "var" else
+           _t_var(P, A + "value::Value", "BooleanValue", [_t_obj(P, A + "value::BooleanValue", {"value": value[1]})]))
+    return _t_obj(P, A + "directive::Directive", {"name": _t_ident(P, name), "arguments": _some(_t_obj(P, A + "value::Arguments", {"arguments": [(_t_ident(P, "if"), val)]}))})
+
+
+def _t_field_selection(P, directives):
+    return _t_var(P, A + "selection_set::Selection", "Field", [_t_obj(P, A + "selection_set::Field", {"directives": list(directives)})])
+
+
+def _t_branch(P, type_name, unaliased, aliased):
+    return _t_obj(P, STB, {"type_name": type_name, "unaliased_fields": list(unaliased), "aliased_fields": list(aliased)})
+
+
+def _t_tree(P, t):
+    if t[0] in ("NonNull", "List"):
+        return _t_var(P, ST + "SelectionTree", t[0], [_t_tree(P, t[1])])
+    return _t_var(P, ST + "SelectionTree", "Object", [t[1]])
+
+
+# ====================================================================================================== abstract evaluator
 class _Unknown(Exception):
     pass
 
@@ -1404,13 +1553,33 @@ class _Cont(Exception):
         self.label = label
 
 
+class _Infeasible(Exception):
+    """the assumptions made on this path contradict each other"""
+
+
 class _Opq:
-    """a value the scenario does not determine"""
-    def __init__(self, why=""):
-        self.why = why
+    """an undetermined value.  `origin` says where it comes from (provenance atoms: ("param", name), ("field", adt, f), ("call", path),
+    ("elem",)); assumptions made about it while a path is followed are recorded in place (`ref`: what it is now known to be, `excl`:
+    variant names / literals it is known not to be), so that one path sees one consistent value.  Components (fields, tuple
+    elements, the one element of an undetermined sequence) are created once and remembered."""
+    def __init__(self, why="", origin=(), ty=None):
+        self.why, self.origin, self.ty = why, frozenset(origin), ty
+        self.ref, self.excl, self.kids, self.lvl = None, set(), {}, 0
+
+    def kid(self, key, why, atoms=()):
+        if key not in self.kids:
+            k = self.kids[key] = _Opq(why, self.origin | frozenset(atoms))
+            k.lvl = self.lvl + (1 if key == "#elem" else 0)
+        return self.kids[key]
 
     def __repr__(self):
         return "?%s" % self.why
+
+
+class _Not:
+    """negation of an undetermined boolean"""
+    def __init__(self, x):
+        self.x = x
 
 
 class _Var:
@@ -1515,13 +1684,63 @@ def _opt(v):
 
 
 def _d(v):
-    while isinstance(v, _Place):
-        v = v.get()
-    return v
+    while True:
+        if isinstance(v, _Place):
+            v = v.get()
+        elif isinstance(v, _Opq) and v.ref is not None:
+            v = v.ref
+        elif isinstance(v, _Not):
+            x = _d(v.x)
+            if isinstance(x, bool):
+                return not x
+            return v
+        else:
+            return v
+
+
+def _origin(v):
+    """provenance atoms of a (possibly structured) abstract value"""
+    out = set()
+    st = [v]
+    seen = set()
+    while st:
+        x = st.pop()
+        if id(x) in seen:
+            continue
+        seen.add(id(x))
+        if isinstance(x, _Opq):
+            out |= x.origin
+            if x.ref is not None:
+                st.append(x.ref)
+        elif isinstance(x, _Not):
+            st.append(x.x)
+        elif isinstance(x, _Place):
+            st.append(x.get())
+        elif isinstance(x, (list, tuple)):
+            st.extend(x)
+        elif isinstance(x, _Var):
+            st.extend(x.args)
+        elif isinstance(x, _Obj):
+            st.extend(x.f.values())
+    return out
+
+
+class _UKey:
+    """an undetermined value used as a key: equal to itself; whether it equals another key is not known"""
+    def __init__(self, o):
+        self.o = o
+
+    def __hash__(self):
+        return id(self.o)
+
+    def __eq__(self, other):
+        return isinstance(other, _UKey) and other.o is self.o
 
 
 def _key(v):
     v = _d(v)
+    if isinstance(v, _Opq):
+        return _UKey(v)
     if isinstance(v, (str, int, bool)):
         return v
     if isinstance(v, tuple):
@@ -1580,6 +1799,14 @@ def _lit(n):
 _IDENTITY = {"to_string", "into", "as_str", "as_ref", "as_mut", "borrow", "borrow_mut", "deref", "deref_mut", "as_deref", "as_slice",
              "as_mut_slice", "copied", "peekable", "fuse", "into_boxed_str", "into_vec", "into_boxed_slice", "from", "to_str", "into_owned"}
 _CLONES = {"clone", "cloned", "to_owned", "to_vec"}
+_SEQ_ONLY = {"iter", "into_iter", "iter_mut", "filter_map", "flat_map", "flatten", "find_map", "any", "all", "for_each", "fold", "collect", "enumerate",
+             "chain", "partition_map", "cartesian_product", "multi_cartesian_product", "unique", "rev", "skip", "take_while", "skip_while", "peekable"}
+
+
+def _seqlike(t):
+    """does the type string name a Vec / slice / iterator?"""
+    return t.startswith(("alloc::vec::Vec<", "[", "core::slice::", "core::iter::", "alloc::vec::", "itertools::", "core::option::Iter", "core::option::IntoIter",
+                         "impl Iterator", "impl IntoIterator", "impl core::iter", "alloc::collections::vec_deque", "either::Either<"))
 
 
 def _clone(v):
@@ -1603,20 +1830,93 @@ def _clone(v):
         return t
     if isinstance(v, _Iter):
         raise _Unknown("clone of an iterator")
-    return v
+    return v        # scalars, and undetermined values (a clone of an undetermined value is that same value)
 _PANIC_FNS = ("core::panicking::", "std::panicking::", "core::option::expect_failed", "core::result::unwrap_failed", "std::rt::begin_panic")
 
 
-class _Interp:
-    def __init__(self, P, stubs=None, budget=400000, depth=64):
-        self.P, self.stubs, self.steps, self.budget, self.maxdepth = P, stubs or {}, 0, budget, depth
+class _Abs:
+    """Abstract evaluation of function bodies over a finite domain: enum values known up to their variant tag, booleans and the string
+    literals the code mentions, tuples / structs component-wise, sequences either fully known or undetermined (then: no element or
+    one undetermined element), everything else undetermined with its provenance.  Control flow is followed where the condition is
+    known and *forked* where it is not; an assumption made at a fork is recorded in the value itself, so each path is consistent.
+    `explore` enumerates all paths (by replaying the body with every sequence of fork decisions); a decision table or a path property
+    is then read off the set of paths.  Calls of workspace functions are entered, except the ones in `stops`, which yield an
+    undetermined value and an event.  What has no model raises _Unknown: the rule instance is UNDECIDED."""
+
+    MAX_PATHS = 4000
+
+    def __init__(self, P, stops=(), budget=400000, depth=64, hooks=None, once=()):
+        self.P, self.stubs, self.steps, self.budget, self.maxdepth = P, {}, 0, budget, depth
+        self.stops = set(stops)
+        self.hooks = hooks or {}    # path -> f(ab, args): what a stopped function does with its arguments (e.g. hand a term to the closure it is given)
+        self.once = set(once)       # functions entered, but not re-entered while they run (their recursion is an event)
         self.depth = 0
+        self.stack = []            # paths of the functions being evaluated
+        self.choices, self.pos, self.taken = [], 0, []
+        self.events = []
+        self.iter_stack = []       # origins of the undetermined sequences being iterated
+        self.frames = []           # (kind, len(iter_stack) at entry)
+
+    # --------------------------------------------------------------------------------------------------------- paths
+    def choose(self, k):
+        """one of k alternatives at a fork: replayed from the decision prefix, then always the first"""
+        if self.pos < len(self.choices):
+            c = self.choices[self.pos]
+        else:
+            c = 0
+            self.choices.append(c)
+        self.taken.append((c, k))
+        self.pos += 1
+        return c
+
+    def explore(self, thunk):
+        """thunk(self) is run once per path -> [(status, value, events)] with status ok | panic"""
+        out, prefix = [], []
+        while True:
+            self.choices, self.pos, self.taken, self.events = list(prefix), 0, [], []
+            self.steps, self.depth, self.stack, self.iter_stack, self.frames = 0, 0, [], [], []
+            try:
+                v = thunk(self)
+                out.append(("ok", v, list(self.events)))
+            except _Panic as e:
+                out.append(("panic", str(e), list(self.events)))
+            except _Infeasible:
+                pass
+            except (_Brk, _Cont):
+                raise _Unknown("stray break/continue")
+            taken = list(self.taken)
+            while taken and taken[-1][0] + 1 >= taken[-1][1]:
+                taken.pop()
+            if not taken:
+                return out
+            prefix = [c for c, _ in taken[:-1]] + [taken[-1][0] + 1]
+            if len(out) > self.MAX_PATHS:
+                raise _Unknown("more than %d abstract paths" % self.MAX_PATHS)
+
+    def event(self, *ev):
+        self.events.append(ev)
+
+    def assume(self, o, val):
+        """record what the undetermined value `o` is taken to be on this path"""
+        o.ref = val
+        self.event("assume", o.origin, val if isinstance(val, (bool, str)) else getattr(val, "name", None), o)
+
+    def opq(self, why, *parts, atoms=()):
+        org = set(atoms)
+        for p in parts:
+            org |= _origin(p)
+        return _Opq(why, org)
 
     # ---------------------------------------------------------------------------------------------------------- calls
-    def call(self, path, args):
-        """run workspace function `path` on argument values"""
-        if path in self.stubs:
-            return self.stubs[path](*args)
+    def call(self, path, args, top=False):
+        """evaluate workspace function `path` on abstract argument values (a function in `stops`, or one that recursed deeper than any finite term
+        the tables use, is not entered: its result is undetermined and the call is an event)"""
+        if not top and (path in self.stops or self.stack.count(path) >= 8 or (path in self.once and path in self.stack)
+                        or (path in self.stack and not any(isinstance(_d(a), (_Var, _Obj, list, tuple)) for a in args))):
+            self.event("call", path, list(args))
+            if path in self.hooks:
+                return self.hooks[path](self, list(args))
+            return self.opq(short(path), *args, atoms=[("call", path)])
         f = self.P.fns.get(path)
         if f is None or f.derived:
             raise _Unknown("no body for %s" % path)
@@ -1629,13 +1929,16 @@ class _Interp:
             if not self.pm(p, a, env):
                 raise _Unknown("parameter pattern of %s" % path)
         self.depth += 1
+        self.stack.append(path)
+        self.frames.append(("fn", len(self.iter_stack)))
         try:
             return self.ev(f.body, env)
         except _Ret as r:
             return r.v
         finally:
             self.depth -= 1
-
+            self.stack.pop()
+            del self.iter_stack[self.frames.pop()[1]:]
     def apply(self, fv, args):
         fv = _d(fv)
         if isinstance(fv, _Clo):
@@ -1647,6 +1950,7 @@ class _Interp:
                 if not self.pm(p, a, env):
                     raise _Unknown("closure parameter pattern")
             self.depth += 1
+            self.frames.append(("clo", len(self.iter_stack)))
             try:
                 if self.depth > self.maxdepth:
                     raise _Unknown("call depth")
@@ -1655,6 +1959,11 @@ class _Interp:
                 return r.v
             finally:
                 self.depth -= 1
+                del self.iter_stack[self.frames.pop()[1]:]
+        if isinstance(fv, _Opq):
+            # an undetermined function value (a `mapper` / `visitor` parameter): its result is undetermined, derived from its arguments
+            self.event("apply", fv.origin, list(args))
+            return self.opq("result", fv, *args, atoms=[("applied",)])
         if isinstance(fv, _Fn):
             if fv.ctor:
                 return self.ctor(fv.path, fv.ctor, args)
@@ -1670,7 +1979,7 @@ class _Interp:
     def fncall(self, callee, rd, args, node):
         """a path call: workspace function, trait method with a workspace impl, or a modelled std function"""
         for p in (rd, callee):
-            if p and (p in self.stubs or (p in self.P.fns and not self.P.fns[p].derived and self.P.fns[p].kind in ("Fn", "AssocFn"))):
+            if p and p in self.P.fns and not self.P.fns[p].derived and self.P.fns[p].kind in ("Fn", "AssocFn"):
                 return self.call(p, args)
         c = callee or ""
         if c.startswith(_PANIC_FNS):
@@ -1721,27 +2030,29 @@ class _Interp:
         return self.unknown_call(c, args, node)
 
     def unknown_call(self, c, args, node=None):
-        """a callee without body or model: its result is undetermined — unless it may have an effect the scenario depends on (it gets a
-        container, an iterator, a closure or a `&mut` to determined state), in which case nothing is known any more"""
+        """a callee without body or model: its result is undetermined (with the provenance of its arguments) — unless it may have an
+        effect the evaluation depends on (it gets a container, an iterator, a closure or a `&mut` to determined state)"""
         for a in args:
             if isinstance(_d(a), (list, _Map, _Set, _Clo, _Iter)) or isinstance(a, _Place):
                 raise _Unknown("no model for %s" % c)
-        determined = any(not isinstance(_d(a), _Opq) for a in args)
+        determined = any(not isinstance(_d(a), (_Opq, _Not)) for a in args)
         if node is not None and determined:
             if str(node.get("recv_ty", "")).startswith("&mut"):
                 raise _Unknown("no model for %s (mutable receiver)" % c)
             if any(isinstance(a, dict) and a.get("k") == "AddrOf" and a.get("mut") for a in node.get("args", [])):
                 raise _Unknown("no model for %s (`&mut` argument)" % c)
-        return _Opq(c)
-
+        return self.opq(c.split(" ")[0].split("::")[-1], *args, atoms=[("call", c.split(" ")[0])])
     # ------------------------------------------------------------------------------------------------------- iteration
     def iterate(self, v):
-        """a Python iterator over the elements `v` yields as a Rust IntoIterator (a list is snapshotted, an iterator is consumed)"""
+        """a Python iterator over the elements `v` yields as a Rust IntoIterator (a list is snapshotted, an iterator is consumed).
+        An undetermined sequence yields nothing or one undetermined element (a fork)."""
         v = _d(v)
         if isinstance(v, _Iter):
             return v
         if isinstance(v, list):
             return iter(list(v))
+        if isinstance(v, _Opq):
+            return self.elems(v)
         if isinstance(v, _Var):
             if v.name == "Some":
                 return iter([v.args[0]])
@@ -1757,17 +2068,95 @@ class _Interp:
             return iter([(k, x) for k, x in v.d.items()] if isinstance(v, _Map) else list(v.d))
         raise _Unknown("iteration over %r" % (v,))
 
+    def elems(self, o):
+        """the elements of an undetermined sequence on this path: decided once (none / one), then remembered"""
+        self.event("iter", o.origin, o)
+        if "#n" not in o.kids:
+            # (an element of an element of an element ... : the nesting of undetermined sequences is followed two levels deep)
+            o.kids["#n"] = self.choose(2) if o.lvl < 2 and sum(1 for e in self.events if e[0] == "elem") < 6 else 0
+            if o.kids["#n"]:
+                self.event("elem", o.origin, o)
+
+        def gen():
+            if o.kids["#n"]:
+                mark = [o.origin]
+                self.iter_stack.append(mark)
+                try:
+                    yield o.kid("#elem", "elem", [("elem",)])
+                finally:
+                    if self.iter_stack and self.iter_stack[-1] is mark:
+                        self.iter_stack.pop()
+        return _Iter(gen())
+
     def truth(self, v):
         v = _d(v)
         if v is True or v is False:
             return v
-        raise _Unknown("branch on undetermined value %r" % (v,))
+        if isinstance(v, _Not):
+            return not self.truth(v.x)
+        if isinstance(v, _Opq):
+            b = bool(self.choose(2))
+            self.assume(v, b)
+            return b
+        raise _Unknown("branch on %r" % (v,))
 
+    def eq(self, a, b):
+        """`a == b` over abstract values -> bool, or an undetermined boolean (the comparison of an undetermined boolean with a constant is
+        that boolean or its negation; of an undetermined string / enum with a constant a fork)"""
+        a, b = _d(a), _d(b)
+        e = _eq(a, b)
+        if e is not None:
+            return e
+        if isinstance(b, (_Opq, _Not)) and not isinstance(a, (_Opq, _Not)):
+            a, b = b, a
+        if isinstance(a, (_Opq, _Not)):
+            if isinstance(b, bool):
+                return a if b else (a.x if isinstance(a, _Not) else _Not(a))
+            if isinstance(a, _Opq) and isinstance(b, (str, int)):
+                if b in a.excl:
+                    return False
+                if self.choose(2) == 0:
+                    self.assume(a, b)
+                    return True
+                a.excl.add(b)
+                self.event("assume-not", a.origin, b, a)
+                return False
+            if isinstance(a, _Opq) and isinstance(b, _Var):
+                if not self.is_variant(a, b.name, len(b.args), b.adt):
+                    return False
+                return self.eq(_d(a), b)
+            return self.opq("eq", a, b, atoms=[("eq",)])
+        if isinstance(a, (tuple, list)) and isinstance(b, (tuple, list)):
+            if len(a) != len(b):
+                return False
+            for x, y in zip(a, b):
+                if not self.truth(self.eq(x, y)):
+                    return False
+            return True
+        if isinstance(a, _Var) and isinstance(b, _Var):
+            if a.name != b.name or len(a.args) != len(b.args):
+                return False
+            return self.eq(a.args, b.args)
+        if isinstance(a, _Obj) and isinstance(b, _Obj) and a.adt == b.adt and set(a.f) == set(b.f):
+            return self.eq([a.f[k] for k in sorted(a.f)], [b.f[k] for k in sorted(a.f)])
+        return self.opq("eq", a, b, atoms=[("eq",)])
+
+    def is_variant(self, o, name, arity, adt=None):
+        """fork: is the undetermined enum value `o` the variant `name`?  (yes: it becomes that variant with undetermined payloads)"""
+        if name in o.excl:
+            return False
+        if self.choose(2) == 0:
+            val = _Var(name, [o.kid("%s.%d" % (name, i), "%s.%d" % (name, i), [("variant", adt, name)]) for i in range(arity)], adt)
+            self.assume(o, val)
+            return True
+        o.excl.add(name)
+        self.event("assume-not", o.origin, name, o)
+        return False
     # ---------------------------------------------------------------------------------------------------- method models
     def method(self, name, callee, rd, recv, args, node):
         P = self.P
         for p in (rd, callee):
-            if p and (p in self.stubs or (p in P.fns and not P.fns[p].derived and P.fns[p].kind in ("Fn", "AssocFn"))):
+            if p and p in P.fns and not P.fns[p].derived and P.fns[p].kind in ("Fn", "AssocFn"):
                 return self.call(p, [recv] + list(args))
         r = _d(recv)
         # trait method declared outside / inside the workspace with a workspace impl for the receiver's ADT
@@ -1793,13 +2182,44 @@ class _Interp:
                 return x
             raise _Unknown("to_string of %r" % (r,))
         if name in ("eq", "ne") and len(A) == 1:
-            e = _eq(r, A[0])
-            return _Opq("eq") if e is None else (e if name == "eq" else not e)
-        if isinstance(r, _Opq):
-            for a in A:
-                if isinstance(_d(a), (list, _Map, _Set, _Iter)) or isinstance(a, _Place):
-                    raise _Unknown("no model for %s on undetermined receiver" % name)
-            return _Opq(name)
+            e = self.eq(r, A[0])
+            return e if name == "eq" else self.neg(e)
+        if isinstance(r, (_Opq, _Not)):
+            t = peel_ty(((node or {}).get("recv") or {}).get("t") or "")
+            if isinstance(r, _Not) or t == "bool":
+                if name in ("then", "then_some", "not"):
+                    r = self.truth(r)
+                else:
+                    return self.opq(name, r, *A)
+            elif t.startswith("core::option::Option<"):
+                if not self.is_variant(r, "Some", 1, _NONE_ADT):
+                    self.assume(r, _none())
+                r = _d(r)
+            elif t.startswith("core::result::Result<"):
+                if not self.is_variant(r, "Ok", 1, "core::result::Result"):
+                    self.assume(r, _Var("Err", [r.kid("Err.0", "err")], "core::result::Result"))
+                r = _d(r)
+            elif _seqlike(t) or (not t and name in _SEQ_ONLY):
+                if name == "is_empty" and not A:
+                    for _ in self.elems(r):
+                        return False
+                    return True
+                if name in ("first", "last", "first_mut", "last_mut", "next", "peek", "pop", "iter().next") and not A:
+                    for x in self.elems(r):
+                        return _some(x)
+                    return _none()
+                if name in ("len", "count", "contains", "get", "get_mut", "binary_search", "capacity", "position") and not any(isinstance(_d(a), _Clo) for a in A):
+                    return self.opq(name, r, *A, atoms=[("call", name)])
+                if name in ("push", "push_back", "extend", "extend_from_slice", "insert", "append", "clear", "truncate", "retain", "remove", "sort", "dedup", "reverse"):
+                    raise _Unknown("in-place `%s` on an undetermined sequence" % name)
+                return self.seq_method(name, c, recv, _Iter(self.elems(r)), A, node)
+            else:
+                for a in A:
+                    if isinstance(_d(a), (list, _Map, _Set, _Iter, _Clo)) or isinstance(a, _Place):
+                        raise _Unknown("no model for `%s` on an undetermined receiver of type %s" % (name, t[:40] or "?"))
+                if name in _IDENTITY or name in _CLONES:
+                    return r
+                return self.opq(name, r, *A, atoms=[("call", name)])
         if isinstance(r, bool):
             if name == "then":
                 return _some(ap(A[0], [])) if r else _none()
@@ -1896,20 +2316,20 @@ class _Interp:
             d = r.d
             if name == "get":
                 k = _key(A[0])
-                return _some(d[k]) if k in d else _none()
+                return _some(d[k]) if self.member(d, k, True) else _none()
             if name == "get_mut":
                 k = _key(A[0])
-                return _some(_Place(d, k)) if k in d else _none()
+                return _some(_Place(d, k)) if self.member(d, k, True) else _none()
             if name == "contains_key":
-                return _key(A[0]) in d
+                return self.member(d, _key(A[0]))
             if name == "insert":
                 k = _key(A[0])
-                old = _opt(d.get(k)) if k in d else _none()
+                old = _opt(d.get(k)) if self.member(d, k, True) else _none()
                 d[k] = A[1]
                 return old
             if name == "remove":
                 k = _key(A[0])
-                return _some(d.pop(k)) if k in d else _none()
+                return _some(d.pop(k)) if self.member(d, k, True) else _none()
             if name == "entry":
                 return ("entry", d, _key(A[0]))
             if name == "len":
@@ -1929,11 +2349,11 @@ class _Interp:
         if isinstance(r, tuple) and len(r) == 3 and r[0] == "entry":
             _, d, k = r
             if name in ("or_insert", "or_insert_with", "or_insert_with_key"):
-                if k not in d:
+                if not self.member(d, k, True):
                     d[k] = A[0] if name == "or_insert" else ap(A[0], [] if name == "or_insert_with" else [k])
                 return _Place(d, k)
             if name == "or_default":
-                if k not in d:
+                if not self.member(d, k, True):
                     t = str((node or {}).get("t", ""))
                     if "Vec<" in t.split("&mut ")[-1][:24]:
                         d[k] = []
@@ -1941,20 +2361,20 @@ class _Interp:
                         raise _Unknown("default value")
                 return _Place(d, k)
             if name == "and_modify":
-                if k in d:
+                if self.member(d, k, True):
                     ap(A[0], [_Place(d, k)])
                 return r
         if isinstance(r, _Set):
             if name == "insert":
                 k = _key(A[0])
-                new = k not in r.d
+                new = not self.member(r.d, k)
                 r.d.add(k)
                 return new
             if name == "contains":
-                return _key(A[0]) in r.d
+                return self.member(r.d, _key(A[0]))
             if name == "remove":
                 k = _key(A[0])
-                had = k in r.d
+                had = self.member(r.d, k)
                 r.d.discard(k)
                 return had
             if name == "extend":
@@ -1987,6 +2407,22 @@ class _Interp:
             return r
         return self.unknown_call("%s (method `%s` on %r)" % (c, name, type(r).__name__), [recv] + A, node)
 
+    def member(self, d, k, need_value=False):
+        """k in d, where keys may be undetermined: exact for the very same value and for an empty collection, a fork otherwise"""
+        if k in d:
+            return True
+        if not d or not (isinstance(k, _UKey) or any(isinstance(x, _UKey) for x in d)):
+            return False
+        if need_value:
+            raise _Unknown("an undetermined key that may equal another key of the map")
+        return bool(self.choose(2))
+
+    def neg(self, e):
+        e = _d(e)
+        if isinstance(e, bool):
+            return not e
+        return e.x if isinstance(e, _Not) else _Not(e)
+
     def seq_method(self, name, c, recv, r, A, node):
         """methods of Vec / slices (`r` is a list) and of iterators (`r` is an _Iter).  Adaptors are lazy, exactly as in Rust: their
         closures run when an element is pulled, so short-circuiting consumers never evaluate them on later elements."""
@@ -1995,6 +2431,9 @@ class _Interp:
         src = it(r)      # a list is snapshotted; an iterator is consumed in place
 
         def option(y, what):
+            if isinstance(_d(y), _Opq):
+                if not self.is_variant(_d(y), "Some", 1, _NONE_ADT):
+                    self.assume(_d(y), _none())
             y = _d(y)
             if not (isinstance(y, _Var) and y.name in ("Some", "None")):
                 raise _Unknown("%s result %r" % (what, y))
@@ -2066,10 +2505,7 @@ class _Interp:
                 for x in src:
                     dup = False
                     for y in (seen if name == "unique" else seen[-1:]):
-                        e = _eq(x, y)
-                        if e is None:
-                            raise _Unknown("%s over undetermined elements" % name)
-                        dup = dup or e
+                        dup = dup or self.truth(self.eq(x, y))
                     if not dup:
                         seen.append(x)
                         yield x
@@ -2152,6 +2588,10 @@ class _Interp:
             le, ri = [], []
             for x in src:
                 y = _d(ap(A[0], [x]))
+                if isinstance(y, _Opq):
+                    if not self.is_variant(y, "Left", 1, "either::Either"):
+                        self.assume(y, _Var("Right", [y.kid("Right.0", "Right.0", [("variant", "either::Either", "Right")])], "either::Either"))
+                    y = _d(y)
                 if not (isinstance(y, _Var) and y.name in ("Left", "Right")):
                     raise _Unknown("partition_map")
                 (le if y.name == "Left" else ri).append(y.args[0])
@@ -2198,10 +2638,7 @@ class _Interp:
             return not r
         if name == "contains":
             for x in r:
-                e = _eq(x, A[0])
-                if e is None:
-                    raise _Unknown("contains on undetermined element")
-                if e:
+                if self.truth(self.eq(x, A[0])):
                     return True
             return False
         if name in ("first", "first_mut"):
@@ -2249,9 +2686,7 @@ class _Interp:
         if name == "dedup" and not A:
             out = []
             for x in r:
-                e = _eq(x, out[-1]) if out else False
-                if e is None:
-                    raise _Unknown("dedup over undetermined elements")
+                e = self.truth(self.eq(x, out[-1])) if out else False
                 if not e:
                     out.append(x)
             r[:] = out
@@ -2294,15 +2729,30 @@ class _Interp:
                     return True
             return False
         if isinstance(v, _Opq):
-            if k in ("Tuple",) and "ddpos" not in pat and all(self._irrefutable(p) for p in pat["ps"]):
-                for p in pat["ps"]:
-                    self.pm(p, _Opq(v.why), env)
-                return True
-            if k == "Struct" and pat.get("dk") != "Variant" and all(self._irrefutable(f["p"]) for f in pat["fields"]):
+            if k == "Tuple" and "ddpos" not in pat:
+                v.ref = tuple(v.kid(i, "%s.%d" % (v.why, i), [("tuplefield", str(i))]) for i in range(len(pat["ps"])))
+            elif k == "Struct" and pat.get("dk") != "Variant":
+                adt = norm(pat.get("pat_adt") or pat.get("adt") or "")
                 for f in pat["fields"]:
-                    self.pm(f["p"], _Opq(v.why), env)
+                    if not self.pm(f["p"], v.kid(("f", f["name"]), f["name"], [("field", adt, f["name"])]), env):
+                        return False
                 return True
-            raise _Unknown("pattern on undetermined value")
+            elif k in ("TupleStruct", "Struct") or (k == "PatExpr" and "lk" not in pat):
+                d = norm(pat.get("ctor_of") or pat.get("def") or "")
+                arity = len(pat["ps"]) if k == "TupleStruct" else (len(pat.get("fields", [])) if k == "Struct" and all(f["name"].isdigit() for f in pat["fields"]) else 0)
+                if k == "Struct" and pat["fields"] and not all(f["name"].isdigit() for f in pat["fields"]):
+                    raise _Unknown("struct-variant pattern on an undetermined value")
+                if k == "TupleStruct" and "ddpos" in pat:
+                    raise _Unknown("variant pattern with `..`")
+                if not self.is_variant(v, d.split("::")[-1], arity, d.rsplit("::", 1)[0]):
+                    return False
+            elif k == "PatExpr":
+                return self.truth(self.eq(v, _lit(pat)))
+            else:
+                raise _Unknown("pattern kind %s on an undetermined value" % k)
+            v = _d(v)
+        if isinstance(v, _Not) and k == "PatExpr" and "lk" in pat:
+            return self.truth(self.eq(v, _lit(pat)))
         if k == "Tuple":
             if "ddpos" in pat or not isinstance(v, tuple) or len(v) != len(pat["ps"]):
                 raise _Unknown("tuple pattern")
@@ -2354,10 +2804,7 @@ class _Interp:
             raise _Unknown("struct pattern on %r" % (v,))
         if k == "PatExpr":
             if "lk" in pat:
-                e = _eq(v, _lit(pat))
-                if e is None:
-                    raise _Unknown("literal pattern on %r" % (v,))
-                return e
+                return self.truth(self.eq(v, _lit(pat)))
             name = norm(pat.get("ctor_of") or pat.get("def") or "").split("::")[-1]
             if isinstance(v, _Var) and name:
                 return v.name == name
@@ -2463,7 +2910,8 @@ class _Interp:
         if isinstance(b, tuple) and f.isdigit() and int(f) < len(b):
             return b[int(f)]
         if isinstance(b, _Opq):
-            return _Opq(f)
+            adt = norm(n.get("adt") or "")
+            return b.kid(("f", f), f, [("field", adt, f)] if adt else [("tuplefield", f)])
         raise _Unknown("field `%s` of %r" % (f, b))
 
     def e_AddrOf(self, n, env):
@@ -2503,8 +2951,10 @@ class _Interp:
                 return self.deref(v)
             return v if not isinstance(v, _Place) or isinstance(v.get(), (list, _Map, _Set, _Obj)) else v.get()
         v = _d(v)
+        if op == "Not" and isinstance(v, (_Opq, _Not, bool)):
+            return self.neg(v)
         if isinstance(v, _Opq):
-            return _Opq(op)
+            return self.opq(op, v)
         if op == "Not" and isinstance(v, bool):
             return not v
         if op == "Neg" and isinstance(v, int):
@@ -2514,15 +2964,10 @@ class _Interp:
     def e_Binary(self, n, env):
         op = n.get("op")
         if op in ("&&", "||"):
-            l = _d(self.ev(n["l"], env))
-            if isinstance(l, bool):
-                if (op == "&&" and not l) or (op == "||" and l):
-                    return l
-                return self.ev(n["r"], env)
-            r = _d(self.ev(n["r"], env))
-            if isinstance(r, bool) and ((op == "&&" and not r) or (op == "||" and r)):
-                return r
-            return _Opq(op)
+            l = self.truth(self.ev(n["l"], env))
+            if (op == "&&" and not l) or (op == "||" and l):
+                return l
+            return self.ev(n["r"], env)
         l, r = self.ev(n["l"], env), self.ev(n["r"], env)
         if op in ("==", "!="):
             c = norm(n.get("rd") or n.get("callee") or "")
@@ -2530,14 +2975,18 @@ class _Interp:
             if not (c in self.P.fns and not self.P.fns[c].derived) and isinstance(lv, (_Obj, _Var)) and lv.adt:
                 hits = [g for g in self.P.impls.get(("core::cmp::PartialEq", "eq"), []) if g.self_adt == lv.adt and not g.derived]
                 c = hits[0].path if len(hits) == 1 else c
-            if c in self.P.fns and not self.P.fns[c].derived:
-                e = self.truth(self.call(c, [l, r]))
-                return e if op == "==" else not e
-            e = _eq(l, r)
-            return _Opq(op) if e is None else (e if op == "==" else not e)
+            if c in self.P.fns and not self.P.fns[c].derived and not isinstance(lv, (_Opq, _Not)):
+                e = self.call(c, [l, r])
+            else:
+                e = self.eq(l, r)
+            return e if op == "==" else self.neg(e)
         l, r = _d(l), _d(r)
-        if isinstance(l, _Opq) or isinstance(r, _Opq):
-            return _Opq(op)
+        if isinstance(l, (_Opq, _Not)) or isinstance(r, (_Opq, _Not)):
+            if op in ("^",) and isinstance(r, bool):
+                return self.neg(l) if r else l
+            if op in ("^",) and isinstance(l, bool):
+                return self.neg(r) if l else r
+            return self.opq(op, l, r)
         if isinstance(l, bool) and isinstance(r, bool) and op in ("^", "&", "|"):
             return {"^": l != r, "&": l and r, "|": l or r}[op]
         if isinstance(l, int) and isinstance(r, int) and not isinstance(l, bool):
@@ -2603,7 +3052,7 @@ class _Interp:
                 if "guard" in arm and not self.truth(self.ev(arm["guard"], env)):
                     continue
                 return self.ev(arm["body"], env)
-        raise _Unknown("no arm matches %r" % (_d(v),))
+        raise _Infeasible()      # matches are exhaustive: the assumptions of this path exclude every arm
 
     def for_loop(self, n, env):
         sc = n["scrut"]
@@ -2634,7 +3083,11 @@ class _Interp:
         return ()
 
     def e_Loop(self, n, env):
+        rounds = 0
         while True:
+            rounds += 1
+            if rounds > 64:
+                raise _Unknown("loop does not terminate on the abstract input")
             self.steps += 1
             if self.steps > self.budget:
                 raise _Unknown("step budget")
@@ -2656,7 +3109,11 @@ class _Interp:
         raise _Cont(n.get("label"))
 
     def e_Ret(self, n, env):
-        raise _Ret(self.ev(n["e"], env) if "e" in n else ())
+        v = self.ev(n["e"], env) if "e" in n else ()
+        if self.frames and self.frames[-1][0] == "fn" and len(self.iter_stack) > self.frames[-1][1]:
+            # leaving the function from inside the traversal of an undetermined sequence: the remaining elements are not looked at
+            self.event("ret-in-iter", [m[0] for m in self.iter_stack[self.frames[-1][1]:]], v, self.stack[-1] if self.stack else None)
+        raise _Ret(v)
 
     e_InlRet = e_Ret
 
@@ -2688,7 +3145,7 @@ class _Interp:
         op = (n.get("op") or "").rstrip("=")
         cur = self.ev(n["l"], env)
         v = self.e_Binary({"op": op, "l": {"k": "_Val", "v": cur}, "r": n["r"]}, env)
-        if isinstance(_d(v), _Opq):
+        if isinstance(_d(v), (_Opq, _Not)) and not isinstance(_d(cur), (bool, _Opq, _Not)):
             raise _Unknown("compound assignment of an undetermined value")
         l = n["l"]
         if l.get("k") == "Path" and "local" in l:
@@ -2727,36 +3184,23 @@ class _Interp:
         raise _Unknown("index")
 
 
-def _run(P, path, args, stubs=None):
-    """-> ("ok", value) | ("panic", why) | ("unknown", why)"""
-    ip = _Interp(P, stubs)
-    try:
-        return "ok", ip.call(path, args)
-    except _Panic as e:
-        return "panic", str(e)
-    except _Unknown as e:
-        return "unknown", str(e)
-    except (_Brk, _Cont):
-        return "unknown", "stray break/continue"
-    except (KeyError, IndexError, TypeError, AttributeError, RecursionError) as e:
-        return "unknown", "interpreter: %r" % (e,)
-
-
 RULES = [("R02-a", r02a), ("R02-b", r02b), ("R02-c", r02c), ("R02-d", r02d), ("R02-e", r02e), ("R02-f", r02f)]
 EXPLANATION = (
-    "The mechanisms C02 anchors, each a necessary condition. Structural instances are decided for all inputs; instances marked `run:` "
-    "are decided by abstract execution of the public entry points over the typed HIR on a fixed small schema and a GraphQL selection, "
-    "everything else undetermined, compared with the GraphQL spec's result for that input (a differing result is a concrete witness). "
-    "(R02-a) nullability: a type is nullable unless wrapped in Non-Null, list elements are decided afresh, wrappers are carried 1:1 into "
-    "the selection tree, leaves and nested selections use the schema field's type; (R02-b) the __typename literal is the branch's "
-    "concrete object type, and the special case is keyed by field name rather than response key; (R02-c) result leaves and branches "
-    "refer to the OperationOutput namespace; (R02-d) object declarations list __typename plus every field; (R02-e) the merge table "
-    "of same-key fields (a field selected in any occurrence is present, sides kept correctly), branches paired by object type, "
-    "fast_equal sound; (R02-f) the type-condition filter relates each kind of condition to the branch's object at every fragment "
-    "site, @skip/@include rows, both values of each boolean variable of every directive of every selection, possible types per "
-    "parent kind. Not decided: that the emitted union equals the per-selection-set denotation for every schema and document.")
+    "The mechanisms C02 anchors, each a necessary condition decided from the typed HIR without executing anything. Provenance instances "
+    "hold for all inputs; `table:` instances read a finite decision table out of the code by abstract evaluation over variant tags, booleans, "
+    "the string literals of the code and undetermined payloads (forking on every undetermined condition) and compare it with the table the "
+    "GraphQL spec prescribes; `paths:` instances are properties of every abstract path. (R02-a) nullability: a type is nullable unless "
+    "wrapped in Non-Null, list elements are decided afresh, wrappers are carried 1:1 into the selection tree, leaves and nested selections "
+    "use the schema field's type; (R02-b) the __typename literal is the branch's concrete object type (unaliased and aliased), and the "
+    "special case is keyed by field name rather than response key; (R02-c) result leaves and branches refer to the OperationOutput "
+    "namespace; (R02-d) object declarations list __typename plus every field; (R02-e) the 7-cell merge table of same-key fields, "
+    "branches paired by object type (never by position, without using the other side up), right-only branches appended under a "
+    "type-name test, fast_equal sound; (R02-f) the type-condition filter relates each kind of condition to the branch's object and "
+    "guards every fragment site, the @skip/@include table and its scan over all directives, the variable enumeration reaches every "
+    "selection and every directive, possible types per parent kind. Not decided: that the emitted union equals the per-selection-set "
+    "denotation for every schema and document.")
 ASSUMPTIONS = ["TypeScript semantics of the emitted utility type __SelectionSet (not analysed)", "GraphQL spec §3.12 nullability, §5.5.2 fragment applicability",
-               "the interpreter's models of std (Option, iterators, Vec, HashMap/HashSet, itertools products) are exact; anything else is UNDECIDED"]
+               "the abstract evaluator's models of std (Option, iterators, Vec, itertools products) are exact or raise: anything without a model is UNDECIDED"]
 
 
 def main(tier):
